@@ -12,1039 +12,2555 @@ Definition show_fres (r : fres) : string :=
   end.
 Definition check (rs : list rune) : string := digest (show_fres (format_res rs)).
 Definition full (rs : list rune) : string := show_fres (format_res rs).
-Eval vm_compute in ("<<<M1>>>" ++ check (runes_of_ascii "
-packet
-body { chars //x
-`two words` , match crc as	metadata {65535
-    :
-    // c
-    trueish ""\" ++ [233]%N ++ runes_of_ascii """ : charz , ""abc""	: MetaDataX [""packet"" , ""// no comment"",0
-, 00
-,
-    ""// no comment"" ,""{,}"" , 00 ]:  i64_
-// @lengthOf(
-//	t
-, """ ++ [233]%N ++ runes_of_ascii "t" ++ [233]%N ++ runes_of_ascii """ :f32a
-, [
-    """ ++ [128512]%N ++ runes_of_ascii """  , ""it's""
-]
-: Foo
-}
-    ,@rightPad
-(  ' '
-    /// triple
-    ) repeat char[ 1]
-    body `it's`
-,
-@tag( 007) @calculatedFrom(
-    """ ++ [233]%N ++ runes_of_ascii "t" ++ [233]%N ++ runes_of_ascii """ )
-// @lengthOf(
-//
-@calculatedFrom( ""a\""b""// trailing space 
-)
-repeat
-i64_
-{ roots /// triple
-{ i16 // packet A { u8 x, }
-Header`two words`, repeatCount `{ , }`,  f64
-x @calculatedFrom( ""a	b"")
-    // a // b
-    ,repeatCount @calculatedFrom(// " ++ [27880; 37322]%N ++ runes_of_ascii "
-"""" ) ,} ,repeat u8
-BodyLength
-    `crlf
-line`	,
-    // `tick` ""quote"" 'q'
-    char As
-@lengthOf(
-    Foo) , } ,	char[] roots
-    `line1
-line2`,//
-int a1, string_{ char[]Logon `line1
-line2` , repeat float32 trueish
-    ,
-},
-@leftPad ( '0' ) repeat metadata  {	rootA@lengthOf( // trailing space 
-falsey	) ``
-    ,
-// " ++ [128512]%N ++ runes_of_ascii " emoji
-// packet A { u8 x, }
-} ,
-} packet float
-{u16
-// trailing space 
-// trailing space 
-Logon // a // b
-`tab	here`// @lengthOf(
-,
-// @lengthOf(
-// c
-u128 {zchar[255
-// packet A { u8 x, }
-//
-]	charz`doc` , }
-,
-@tag(0 )	repeat Foo { i32 body
-    @calculatedFrom( ""`tick`"" )
-`" ++ [233]%N ++ runes_of_ascii "` ,} /// triple
-,char[] o @calculatedFrom(""1"" ) `line1
-line2` ,
-@lengthOf(
-// a // b
-//x
-zchar) i16 BodyLength
-    @lengthOf(
-    // " ++ [27880; 37322]%N ++ runes_of_ascii "
-    BodyLength )
-    , @lengthOf( T) @rightPad(
-' ' )@lengthOf( T
-)
-repeat
-u64 _x// " ++ [27880; 37322]%N ++ runes_of_ascii "
-, match MetaDataX as // trailing space 
-options1// trailing space 
-{ //x
-0123456789 :
-    options1  , } , repeat u8 charz
-, repeat i8i8 {// c
-a1 ,len  { repeat string
-o	,
-    // a // b
-    } ,	match zchar
-as Logon {"""" : matchKey """ ++ [128512]%N ++ runes_of_ascii """	: u 007 :
-repeatCount ,}  , // c
-}
-    ,
-}
-")).
-Eval vm_compute in ("<<<M174>>>" ++ check (runes_of_ascii "root
-packet charz {// a // b
-@rightPad
-    //	t
-    (
-) @lengthOf(
-    Pad ) @rightPad ( ' '
-) MetaDataX @lengthOf( BodyLength
-) `" ++ [28040; 24687; 31867; 22411]%N ++ runes_of_ascii "`
-,
-    repeatCount /// triple
-A
-`
-`,	@tag(
-    4294967296) // trailing space 
-metadata u8x ,
-    @calculatedFrom( ""packet"" ) repeat Pad // @lengthOf(
-`say ""hi""`
-,  } root packet// trailing space 
-rootA {// " ++ [27880; 37322]%N ++ runes_of_ascii "
-rootA	{ string trueish ,
-}
-    ,
-} MetaData
-lengthOf {
-    } packet _x { repeat msg_type { char[ 65535 ]
-crc ,	lengthOf
-    {
-    Packet ,
-    // c
-    string_
-    @calculatedFrom(""a\""b""),
-f32 rootA//
-,
-}	,
-// " ++ [27880; 37322]%N ++ runes_of_ascii "
-// `tick` ""quote"" 'q'
-} ,i16 int  , @lengthOf( matchKey) //	t
-i8i8 int `two words` ,
-// packet A { u8 x, }
-// @lengthOf(
-repeat Logon{
-repeat
-    //	t
-    uint8	f32a ,
-    a1
-    //
-    { repeat char[1
-] Foo , }  , uint8x
-// @lengthOf(
-// packet A { u8 x, }
-{ char[ 4294967296 ]
-T `{ , }`
-, u32
-    repeatCount `" ++ [28040; 24687; 31867; 22411]%N ++ runes_of_ascii "`
-    // c
-    ,} , }
-    ,
-repeat MetaDataX
-, char[ 4294967296 ] i8i8//
-@lengthOf( _x ) ,}
-packet falsey {
-    tag
-{ char[ // " ++ [27880; 37322]%N ++ runes_of_ascii "
-00
-    // `tick` ""quote"" 'q'
-    ] int@lengthOf( u128
-    ) ,
-}
-,roots body ,u16 stringy
-// trailing space 
-// @lengthOf(
-@lengthOf( Pad ) `line1
-line2` ,
-stringy
-@lengthOf(  chars ) ,uint8 lengthOf
-`" ++ [233]%N ++ runes_of_ascii "` ,
-    // " ++ [128512]%N ++ runes_of_ascii " emoji
-    }")).
-Eval vm_compute in ("<<<M1504>>>" ++ check (runes_of_ascii "// top
-packet // c0
-A // c1a
-  // c1b
+Eval vm_compute in ("<<<M3479>>>" ++ check (runes_of_ascii "// top
+options // c0a
+  // c0b
 {
-    // c2
-u8
-    // c3
-a // c4a
-  // c4b
-, } packet // c7a
+    // c1
+ArrayPrefixLenType = // c3
+u64
+    // c4
+; FixedStringPadFromLeft // c6
+= // c7a
   // c7b
-B // c8a
+false // c8a
   // c8b
-{ // c9a
+; // c9a
   // c9b
-u16
-    // c10
-b
-    // c11
-, // c12a
+} // c10
+packet // c11
+Trade // c12a
   // c12b
-} packet
-    // c14
-C // c15a
-  // c15b
-{ // c16
-u32 c
-    // c18
-, // c19a
-  // c19b
-}
+{ } // c14a
+  // c14b
+packet Reject
+    // c16
+{ // c17a
+  // c17b
+InPx94 {
+    // c19
+repeat
     // c20
-root // c21
-packet // c22a
-  // c22b
-M
-    // c23
-{ // c24a
-  // c24b
-u16 // c25
-Kc // c26
+Trade
+    // c21
 ,
-    // c27
-u16
-    // c28
-Kb // c29
-, // c30a
-  // c30b
-u16
-    // c31
-Ka
+    // c22
+string count , // c25a
+  // c25b
+InFlags14 // c26a
+  // c26b
+{ u8 pad0
+    // c29
+, // c30
+} ,
     // c32
-,
-    // c33
-match // c34
-Kc as
-    // c36
-X // c37
-{
-    // c38
-9 // c39
-:
-    // c40
-A
-    // c41
-, 10 // c43
-: // c44a
-  // c44b
-B // c45a
-  // c45b
-, // c46a
-  // c46b
-}
-    // c47
-, // c48a
+repeat InSide239 { // c35a
+  // c35b
+char[ 8
+    // c37
+] // c38a
+  // c38b
+lastPx // c39
+, // c40a
+  // c40b
+repeat // c41
+i64 // c42a
+  // c42b
+clOrdID // c43
+, // c44
+i64 // c45
+Acct , // c47
+} // c48a
   // c48b
-match Kb // c50
-as Y // c52a
-  // c52b
-{ 2
-    // c54
-: // c55
-C
-    // c56
-, // c57
-1 : A // c60
-, // c61
-} // c62a
-  // c62b
-, match // c64a
-  // c64b
-Ka as
-    // c66
-Z
+,
+    // c49
+} // c50
+,
+    // c51
+repeat
+    // c52
+string clOrdID // c54a
+  // c54b
+, // c55
+zchar[ // c56a
+  // c56b
+5 ] sym // c59
+, } // c61a
+  // c61b
+packet Quote
+    // c63
+{ repeat Reject // c66a
+  // c66b
+,
     // c67
-{ // c68a
+} // c68a
   // c68b
-1 // c69a
-  // c69b
-: // c70a
-  // c70b
-B
-    // c71
-,
-    // c72
-} , // c74a
-  // c74b
-A // c75
-, // c76
-B , // c78a
-  // c78b
-C // c79a
-  // c79b
-, // c80a
-  // c80b
-} // c81
-")).
-Eval vm_compute in ("<<<M258>>>" ++ check (runes_of_ascii "
-packet leftPad
-    {}	packet u{@leftPad
-( ' ' )
-    char[65535 ]leftPad, int8
-packetx ,
-string stringy `crlf
-line` ,@leftPad
-( // @lengthOf(
-' ' // " ++ [27880; 37322]%N ++ runes_of_ascii "
-) // " ++ [128512]%N ++ runes_of_ascii " emoji
-i64 x
-@lengthOf( u )
-    `" ++ [28040; 24687; 31867; 22411]%N ++ runes_of_ascii "`	,@lengthOf( pack )
-// a // b
-//
-u64 asx  @lengthOf( repeatCount )
-    `u8 x,` , o A ,}	root packet charz{
-char[]repeatCount
-    //x
-    @lengthOf( tag ) ``
-,
-    repeat pack	`a\` , @calculatedFrom( ""// no comment""
-    //x
-    ) T { string rootA // " ++ [27880; 37322]%N ++ runes_of_ascii "
-@calculatedFrom(""{,}"" )  ,
-    }, repeat As
-    Foo
-, char[
-3] trueish ,@calculatedFrom(""""
-    )@lengthOf(
-metadata)@leftPad ('0'
-/// triple
-//x
-) repeat u64 float `{ , }`
-// " ++ [27880; 37322]%N ++ runes_of_ascii "
-// " ++ [128512]%N ++ runes_of_ascii " emoji
-, stringy {
-// packet A { u8 x, }
-// c
-metadata
-    { u8 f32a `two words` , repeat  char[ 007 ] f32a
-`
-` ,
-    } ,  u32 asx @calculatedFrom(""" ++ [233]%N ++ runes_of_ascii "t" ++ [233]%N ++ runes_of_ascii """
-) ,float64 i8i8 ,//x
-} ,
-// c
-// " ++ [27880; 37322]%N ++ runes_of_ascii "
-match lengthOf as zchar
-    /// triple
-    {
-    00 :o,  } , }")).
-Eval vm_compute in ("<<<M2034>>>" ++ check (runes_of_ascii "packet
-
-    BodyLength // " ++ [27880; 37322]%N ++ runes_of_ascii "
-{ char[  255// " ++ [27880; 37322]%N ++ runes_of_ascii "
-  ]_x,match
-
-body
-
-    as repeatCount
-
-    {""{,}"": len
-} ,
-
-    char[
-
-0]
-
-    Logon	@calculatedFrom( ""{,}""	)
-    , 
-// a // b
-  @rightPad	(
-	)i64_	//x
-  @calculatedFrom(
-
-    ""it's"" 
-) `crlf
-line`,} 
-packet	Header
-{ match
-As as chars {7 :
-	packetx
-
-    ,
-[
-    ""it's""
-
-]
-
-    :u128 ,[ 4294967296 
-, ""{,}"" ]
-    :	f32a ,  } ,
-} packet
-    asx
-    {
-	@calculatedFrom(
-	""1""
-)
-a1  
-  // @lengthOf(
-    	//
-    , 
-    //
-    	//x
-		match
-x_y_z as 
-crc	/// triple
-
-  { 
-	// `tick` ""quote"" 'q'
-	  // `tick` ""quote"" 'q'
-    	""CRC32""
-    : As , 7 : 
-o, //x
-} ,match
-    msg_type  as 
-Packet
-    {
-    """ ++ [233]%N ++ runes_of_ascii "t" ++ [233]%N ++ runes_of_ascii """ :
-metadata
-}
-
-    ,
-
-repeat u8
-    i64_
-,// a // b
-    }")).
-Eval vm_compute in ("<<<M1639>>>" ++ check (runes_of_ascii "root packet u128 {
-    @calculatedFrom(""// no comment"")
-    @tag(10)
-    @calculatedFrom(""packet"")
-    BodyLength ``,
-    char BodyLength `two words`,
-    repeat uint32 f32a,
-    crc {
-        repeat repeatCount Packet,
-        MetaDataX @lengthOf(chars),
-        options1 _x,
-        repeat float64 T,
-    },
-    @tag(3)
-    @leftPad('\x00')
-    @rightPad()
-    match string_ as MetaDataX {
-        ""packet"" : float,
-        [
-            ""abc"", """", 3, 65535, ""a	b"",
-            42, 1, ""packet""
-        ] : i64_,
-        // " ++ [27880; 37322]%N ++ runes_of_ascii "
-        // trailing space 
-        7 : lengthOf,
-        0 : len,
-        10 : len,
-        [0] : A,
-    },
-}")).
-Eval vm_compute in ("<<<M364>>>" ++ check (runes_of_ascii "
-packet chars  { repeat
-    u64 As`" ++ [233]%N ++ runes_of_ascii "` ,@tag( 0 )repeat
-T metadata
-    ``	,
-    }packet Z9_{
-    @rightPad
-    (//
-'0'
-    // " ++ [128512]%N ++ runes_of_ascii " emoji
-    )
-    match u as
-lengthOf
-    {
-""abc""/// triple
-: T
-, ""CRC32"" //x
-:  matchKey
-[ """ ++ [233]%N ++ runes_of_ascii "t" ++ [233]%N ++ runes_of_ascii """ ,  """ ++ [28040; 24687]%N ++ runes_of_ascii """, 65535, 65535 , ""x y""
-    ]
-: metadata""it's"" : i8i8, // packet A { u8 x, }
-255 : trueish , """":u128 ,	} , } MetaData u8x {
-zchar[ 255
-]  zchar ,
-    // `tick` ""quote"" 'q'
-    uint32 uint8x
-`" ++ [233]%N ++ runes_of_ascii "`, uint8 trueish ,
-    // packet A { u8 x, }
-    i64	falsey
-,
-_x MetaDataX ,string
-_x
-// trailing space 
-//
-, } //	t")).
-Eval vm_compute in ("<<<M1543>>>" ++ check (runes_of_ascii "options {
-    StringPrefixLenType = u8;
-    ArrayPrefixLenType = u32;
-}
-packet Quote {
-    u32 Ref,
-    InNote74 {
-        u8 pad0,
-    },
-}
-packet Ack {
-    repeat string OrderId,
-}
-packet Logout {
-    zchar[7] venue,
-    char[12] Px,
-    string count,
-    char[] Tail,
-    char[] Qty,
-    Quote,
-}
-root packet Trade {
-    zchar[2] price,
-    u32 x,
-    u32 lastPx @lengthOf(Body),
-    match x as Body {
-        148 : Ack,
-        171 : Quote,
-        15 : Logout,
-    },
-}
-")).
-Eval vm_compute in ("<<<M284>>>" ++ check (runes_of_ascii "MetaData
-Header { int64
-zchar
-`u8 x,` , Header u8x ,  zchar[ 65535]u ,	A options1
-`it's` , zchar[  007 ] MetaDataX , zchar[// `tick` ""quote"" 'q'
-0] As , }
-    MetaData Logon	{char[] rootA,
-} packet int
-{
-f32 falsey, } MetaData float { len
-leftPad ,
-    A
-    Foo
-`tab	here`
-    , char[ 65535
-] T
-`line1
-line2` ,	} options // " ++ [128512]%N ++ runes_of_ascii " emoji
-{
-// " ++ [128512]%N ++ runes_of_ascii " emoji
-// " ++ [27880; 37322]%N ++ runes_of_ascii "
-float
-    ='0'
-//x
-// a // b
-;float
-= true
-    ;	Foo = ""\n""}")).
-Eval vm_compute in ("<<<M74>>>" ++ check (runes_of_ascii "root packet x	{ @calculatedFrom(""a\\"" ) zchar[42 ]float @calculatedFrom(""a\""b""  ) `
-` ,
-    } MetaData o
-    {
-int8
-BodyLength,string len ,
-    string len , float falsey ,T float
-    , }	MetaData pack { /// triple
-charz o
-`// not a comment`	,	float64 f32a `tab	here`  , int32  u8x  `// not a comment` ,char[10 ]
-a1
-, float32 options1  ,
-} // `tick` ""quote"" 'q'")).
-Eval vm_compute in ("<<<M38>>>" ++ check (runes_of_ascii "  packet
-    i64_
-    {
-    Z9_ @lengthOf(
-charz)	`doc`
-    , Pad {  body @lengthOf( string_ ) //
-`say ""hi""`	, uint64 metadata@lengthOf(Logon )`say ""hi""` ,
-    zchar[ 3
-    ] f32a`{ , }` ,repeat uint8	leftPad
-/// triple
-/// triple
-,  }
-,char[] _x @lengthOf( As)
-    `
-` ,  char[ 65535
-    ]matchKey  `// not a comment`
-,}")).
-Eval vm_compute in ("<<<M1511>>>" ++ check (runes_of_ascii "  packet
-
-    MDSnapshotZZ
-
-{
-
-u8  a
-	,
-
-}
-	packet OrderACK
-    {
-u16 b	, 
-} 
 packet
-	HTTPServerInfo	{
-
-    string
-s ,
-
-    }
-
-root packet FIXMsg{
-u8 KType,  MDSnapshotZZ ,
-
-    repeat OrderACK,
-
-    match KType
-	as	Body{  1 :
-HTTPServerInfo
-
+    // c69
+Logon // c70a
+  // c70b
+{ repeat // c72a
+  // c72b
+Reject // c73
+, char[] // c75a
+  // c75b
+Acct
+    // c76
+, // c77a
+  // c77b
+@leftPad ( // c79a
+  // c79b
+'0'
+    // c80
+)
+    // c81
+char[
+    // c82
+4
+    // c83
+] tag7 // c85a
+  // c85b
 ,
-	2 :
-    OrderACK  ,}
-    ,}
-
-")).
-Eval vm_compute in ("<<<M586>>>" ++ check (runes_of_ascii "root packet tag { }  packet MetaDataX{char[007	]
-// c
-/// triple
-asx  @calculatedFrom( ""a\""b""
-) `say ""hi""`// " ++ [27880; 37322]%N ++ runes_of_ascii "
-,  @tag(4294967296 )
-    char[packetx//x
-] packetx @calculatedFrom(""a\""b""
-    ) ,
-// " ++ [128512]%N ++ runes_of_ascii " emoji
-// a // b
-@calculatedFrom(""" ++ [233]%N ++ runes_of_ascii "t" ++ [233]%N ++ runes_of_ascii """  ) repeat pack // " ++ [27880; 37322]%N ++ runes_of_ascii "
+    // c86
+} // c87a
+  // c87b
+root // c88
+packet Fill // c90a
+  // c90b
+{
+    // c91
+@rightPad ( // c93a
+  // c93b
+'0' // c94
+) // c95
+char[ // c96
+1 ] // c98a
+  // c98b
+count // c99
+, u8 // c101
+f1 // c102a
+  // c102b
 ,
-    } // c")).
-Eval vm_compute in ("<<<M584>>>" ++ check (runes_of_ascii "root packet tag { }  packet MetaDataX{char[007	]
-// c
-/// triple
-asx  @calculatedFrom( ""a\""b""
-) `say ""hi""`// " ++ [27880; 37322]%N ++ runes_of_ascii "
-,  @tag(4294967296 )
-    char[1 1//x
-] packetx @calculatedFrom(""a\""b""
-    ) ,
-// " ++ [128512]%N ++ runes_of_ascii " emoji
-// a // b
-@calculatedFrom(""" ++ [233]%N ++ runes_of_ascii "t" ++ [233]%N ++ runes_of_ascii """  ) repeat pack // " ++ [27880; 37322]%N ++ runes_of_ascii "
+    // c103
+u32 Qty // c105a
+  // c105b
+@lengthOf( // c106a
+  // c106b
+Body // c107
+)
+    // c108
+, // c109
+match // c110
+f1 // c111
+as
+    // c112
+Body
+    // c113
+{
+    // c114
+[ // c115a
+  // c115b
+195 // c116a
+  // c116b
+, // c117a
+  // c117b
+3
+    // c118
+] // c119
+: // c120
+Reject
+    // c121
+, 110 : Quote // c125a
+  // c125b
 ,
-    } // c")).
-Eval vm_compute in ("<<<M670>>>" ++ check (runes_of_ascii "root packet tag { }  packet MetaDataX{char[007	]
-// c""
-/// triple
-asx  @calculatedFrom( ""a\""b""
-) `say ""hi""`// " ++ [27880; 37322]%N ++ runes_of_ascii "
-,  @tag(4294967296 )
-    char[1//x
-] packetx @calculatedFrom(""a\""b""
-    ) ,
-// " ++ [128512]%N ++ runes_of_ascii " emoji
-// a // b
-@calculatedFrom(""" ++ [233]%N ++ runes_of_ascii "t" ++ [233]%N ++ runes_of_ascii """  ) repeat pack // " ++ [27880; 37322]%N ++ runes_of_ascii "
+    // c126
+141 // c127a
+  // c127b
+: Logon
+    // c129
+, // c130
+21 // c131a
+  // c131b
+:
+    // c132
+Trade ,
+    // c134
+} // c135a
+  // c135b
 ,
-    } // c")).
-Eval vm_compute in ("<<<M635>>>" ++ check (runes_of_ascii "root packet tag { }  packet MetaDataX{char[007	]
-// c
-/// triple
-asx  @calculatedFrom( ""a\""b""
-) `say ""hi""`// " ++ [27880; 37322]%N ++ runes_of_ascii "
-,  @tag(4294967296 )
-    char[1//x
-] packetx @calculatedFrom(""a\""b""
-    ) ,
-// " ++ [128512]%N ++ runes_of_ascii " emoji
-// a // b
-@calculatedFrom(""" ++ [233]%N ++ runes_of_ascii "t" ++ [233]%N ++ runes_of_ascii """  ) pack repeat // " ++ [27880; 37322]%N ++ runes_of_ascii "
-,
-    } // c")).
-Eval vm_compute in ("<<<M523>>>" ++ check (runes_of_ascii "root packet tag { }  packet MetaDataX{char[	]
-// c
-/// triple
-asx  @calculatedFrom( ""a\""b""
-) `say ""hi""`// " ++ [27880; 37322]%N ++ runes_of_ascii "
-,  @tag(4294967296 )
-    char[1//x
-] packetx @calculatedFrom(""a\""b""
-    ) ,
-// " ++ [128512]%N ++ runes_of_ascii " emoji
-// a // b
-@calculatedFrom(""" ++ [233]%N ++ runes_of_ascii "t" ++ [233]%N ++ runes_of_ascii """  ) repeat pack // " ++ [27880; 37322]%N ++ runes_of_ascii "
-,
-    } // c")).
-Eval vm_compute in ("<<<M541>>>" ++ check (runes_of_ascii "root packet tag { }  packet MetaDataX{char[007	]
-// c
-/// triple
-asx  root ""a\""b""
-) `say ""hi""`// " ++ [27880; 37322]%N ++ runes_of_ascii "
-,  @tag(4294967296 )
-    char[1//x
-] packetx @calculatedFrom(""a\""b""
-    ) ,
-// " ++ [128512]%N ++ runes_of_ascii " emoji
-// a // b
-@calculatedFrom(""" ++ [233]%N ++ runes_of_ascii "t" ++ [233]%N ++ runes_of_ascii """  ) repeat pack // " ++ [27880; 37322]%N ++ runes_of_ascii "
-,
-    } // c")).
-Eval vm_compute in ("<<<M2055>>>" ++ check (runes_of_ascii "root packet tag {
+    // c136
+u32 // c137a
+  // c137b
+Flags // c138
+@calculatedFrom( ""CRC32"" // c140
+) // c141
+, // c142a
+  // c142b
+} ")).
+Eval vm_compute in ("<<<M4366>>>" ++ check (runes_of_ascii "//	t
+packet asx {
+    repeat i32 u8x,
+    @calculatedFrom(""it's"")
+    match uint8x as matchKey {
+        1 : chars,
+        // `tick` ""quote"" 'q'
+        [255] : matchKey,
+        ""a	b"" : pack,
+        """" : trueish,
+    },
+    @leftPad('\x00')
+    char[] A @calculatedFrom(""a\\""),
+    // trailing space 
+    match MetaDataX as uint8x {
+        [""a	b""] : As,
+    },
+    uint8x {
+        matchKey {
+            int x_y_z,
+        },//
+    },
+    u8 Logon @lengthOf(matchKey),
+    float64 msg_type @lengthOf(zchar),
+    float x_y_z,
+    @rightPad('\x00')
+    match matchKey as lengthOf {
+        [
+            """ ++ [233]%N ++ runes_of_ascii "t" ++ [233]%N ++ runes_of_ascii """, ""{,}"", 3, ""\n"", 0,
+            ""1"", ""x y""
+        ] : u,
+        10 : f32a,
+        1 : chars,
+        42 : Foo,
+        65535 : Header,
+        [""""] : body,
+    },
+    //x
+    match metadata as trueish {
+        """" : metadata,
+        ""`tick`"" : float,
+        255 : x,
+    },
 }
 
-packet MetaDataX {
-    char[007] asx @calculatedFrom(""a\""b""),
-    @tag(4294967296)
-    char[1] packetx @calculatedFrom(""a\""b""),
-    // " ++ [128512]%N ++ runes_of_ascii " emoji
-    // a // b
-    @calculatedFrom(""" ++ [233]%N ++ runes_of_ascii "t" ++ [233]%N ++ runes_of_ascii """)
-    repeat pack,
-}// c")).
-Eval vm_compute in ("<<<M117>>>" ++ check (runes_of_ascii "root packet // packet A { u8 x, }
-f32a
-{ @lengthOf( int )char[]
-    //x
-    o, a1 @lengthOf( packetx
-) // " ++ [27880; 37322]%N ++ runes_of_ascii "
-`u8 x,`
-/// triple
-/// triple
-,
-// " ++ [128512]%N ++ runes_of_ascii " emoji
-// @lengthOf(
-@calculatedFrom( ""1""
-)u8
-Header ,
-    }")).
-Eval vm_compute in ("<<<M617>>>" ++ check (runes_of_ascii "root packet tag { }  packet MetaDataX{char[007	]
-// c
-/// triple
-asx  @calculatedFrom( ""a\""b""
-) `say ""hi""`// " ++ [27880; 37322]%N ++ runes_of_ascii "
-,  @tag(4294967296 )
-    char[1//x
-] packetx @calculatedFrom(""a\""b""
-    )")).
-Eval vm_compute in ("<<<M701>>>" ++ check (runes_of_ascii "root packet len // trailing space 
-{
-// " ++ [27880; 37322]%N ++ runes_of_ascii "
-//	t
-char[10
-] metadata	@lengthOf( o ) `crlf
-line`,
-    @rightPad
-( ' '
-) string
-    Header @calculatedFrom( ""a\\"" ""a\\""
-    ), }
-")).
-Eval vm_compute in ("<<<M455>>>" ++ check (runes_of_ascii "packet
-    // `tick` ""quote"" 'q'
-    crc
-// packet A { u8 x, }
-//	t
-{
-u32 a1 ,
-    // trailing space 
-    roots
-charz //
-`two words`,	}
-    MetaData int {
-} } /// triple")).
-Eval vm_compute in ("<<<M411>>>" ++ check (runes_of_ascii "packet
-    // `tick` ""quote"" 'q'
-    crc
-// packet A { u8 x, }
-//	t
-{
-u32 a1 roots
-    // trailing space 
-    ,
-charz //
-`two words`,	}
-    MetaData int {
-} /// triple")).
-Eval vm_compute in ("<<<M454>>>" ++ check (runes_of_ascii "packet
-    // `tick` ""quote"" 'q'
-    crc
-// packet A { u8 x, }
-//	t
-{
-u32 a1 ,
-    // trailing space 
-    roots
-charz //
-`two words`,	}
-    MetaData int {
- /// triple")).
-Eval vm_compute in ("<<<M700>>>" ++ check (runes_of_ascii "root packet len // trailing space 
-{
-// " ++ [27880; 37322]%N ++ runes_of_ascii "
-//	t
-char[10
-] metadata	@lengthOf( o ) `crlf
-line`,
-    @rightPad
-( ' '
-) 3
-    Header @calculatedFrom( ""a\\""
-    ), }
-")).
-Eval vm_compute in ("<<<M1873>>>" ++ check (runes_of_ascii "
-packet A {
-
-match	k
-	as n	{ [
-""a"" ,
-""bb""  , 
-""c c"" ,  ""d""
-
-, ""e""
-    ,""f""
-    ,
-    ""g""
-
-    , 
-""h"" , 
-""i"" , 
-""j"",
-    ""k""
-
-,
-
-""l""
-	] :B 
-2
-
-:
-
-C} 
-, }")).
-Eval vm_compute in ("<<<M1792>>>" ++ check (runes_of_ascii "packet A {
-    match k as n {
-        [
-            1, ""bb"", 007, ""d"", 5,
-            ""f"", 7, ""h"", 9, ""j""
-        ] : B,
-        2 : C,
+packet trueish {
+    @lengthOf(stringy)
+    zchar[7] x `crlf
+        line`,
+    repeat MetaDataX {
+        i16 Z9_ `two words`,
     },
-}")).
-Eval vm_compute in ("<<<M438>>>" ++ check (runes_of_ascii "packet
-    // `tick` ""quote"" 'q'
-    crc
-// packet A { u8 x, }
-//	t
-{
-u32 a1 ,
-    // trailing space 
-    roots
-charz //
-`two words`,")).
-Eval vm_compute in ("<<<M1776>>>" ++ check (runes_of_ascii "packet A {
-    u16 len @lengthOf(body) `a
-    
-    b`,
-    u32 crc @calculatedFrom(""CRC32"") `a
-    
-    b`,
-    string body,
-}")).
-Eval vm_compute in ("<<<M1233>>>" ++ check (runes_of_ascii "root packet matchKey { zchar[ 3 // c
-] pack @calculatedFrom( ""a	b"" ) `doc` , } options { } MetaData A { int8 msg_type , }")).
-Eval vm_compute in ("<<<M1265>>>" ++ check (runes_of_ascii "root packet matchKey { zchar[ 3 ] pack @calculatedFrom( ""a	b"" ) `doc` , } options { } MetaData A { int8 msg_type // c
-, }")).
-Eval vm_compute in ("<<<M2128>>>" ++ check (runes_of_ascii "
-packet o
-    {repeat 
-Logon
-
-    uint8x  
-  // c
-
-,
-
-    }options{ asx = zchar[3	]
-    stringy
-    = '\x00' }
-
-")).
-Eval vm_compute in ("<<<M1602>>>" ++ check (runes_of_ascii "packet
-
-o
-
-{
-	repeat
-Logon uint8x  ,
-
-    }
-options
-    { asx = zchar[3 ]	stringy 
-  // c
-  = '\x00'
-    }
-")).
-Eval vm_compute in ("<<<M876>>>" ++ check (runes_of_ascii "packet A {
-  match k as n {
-    [""a"", ""bb"", ""c c"", ""d"", ""e"", ""f"", ""g"", ""h"", ""i"", ""j""] : B
-    2 : C
-  },
-}")).
-Eval vm_compute in ("<<<M1889>>>" ++ check (runes_of_ascii "packet A {
-    u32 crc @calculatedFrom(""x\
-        y""),
-    @calculatedFrom(""x\
-        y"")
-    u8 y,
-}")).
-Eval vm_compute in ("<<<M880>>>" ++ check (runes_of_ascii "packet A {
-  match k as n {
-    [""a"", 22, ""c c"", 4, ""e"", 66, ""g"", 8, ""i"", 10] : B
-    2 : C
-  },
-}")).
-Eval vm_compute in ("<<<M2096>>>" ++ check (runes_of_ascii "// c
-packet o {
-    repeat Logon uint8x,
+    @lengthOf(zchar)
+    match metadata as a1 {
+        [""CRC32""] : i8i8,
+        ""a	b"" : x_y_z,
+        [
+            ""1"", ""abc"", 007, 4294967296, 00,
+            ""// no comment"", ""a\""b""
+        ] : chars,
+        [
+            ""`tick`"", ""\" ++ [233]%N ++ runes_of_ascii """, ""x y"", ""a	b"", ""a\""b"",
+            ""`tick`"", 00
+        ] : leftPad,
+        65535 : Z9_,
+    },
+    @lengthOf(falsey)
+    repeat i8i8,
+    @calculatedFrom(""\n"")
+    // a // b
+    char[42] charz @calculatedFrom(""" ++ [128512]%N ++ runes_of_ascii """),
+    repeat char[] stringy `tab	here`,
+    Packet @lengthOf(BodyLength) `" ++ [28040; 24687; 31867; 22411]%N ++ runes_of_ascii "`,
+    string u128,
+    i8 o `
+        `,// 50% %s
+    @leftPad('0')
+    repeat string Header,
 }
 
 options {
-    asx = zchar[3]
-    stringy = '\x00'
+    crc = char[007]
+    packetx = 7;
 }")).
-Eval vm_compute in ("<<<M853>>>" ++ check (runes_of_ascii "packet A {
-  match k as n {
-    [""a"", 22, ""c c"", 4, ""e"", 66, ""g"", 8] : B,
-    2 : C
-  },
-}")).
-Eval vm_compute in ("<<<M1192>>>" ++ check (runes_of_ascii "MetaData float { float64 charz `
-` , // c
-} root packet chars { @rightPad ( '0' ) Foo , }")).
-Eval vm_compute in ("<<<M1403>>>" ++ check (runes_of_ascii "packet chars { }
-// c
-packet MetaDataX { @tag( 42 ) i16 string_ , repeat x `say ""hi""` , }")).
-Eval vm_compute in ("<<<M845>>>" ++ check (runes_of_ascii "packet A {
-  match k as n {
-    [""a"", ""bb"", 007, ""d"", ""e"", 66, ""g""] : B
-    2 : C
-  },
-}")).
-Eval vm_compute in ("<<<M1133>>>" ++ check (runes_of_ascii "packet metadata { Logon {
-// c
-A `" ++ [28040; 24687; 31867; 22411]%N ++ runes_of_ascii "` , tag o , } , zchar len `// not a comment` , }")).
-Eval vm_compute in ("<<<M964>>>" ++ check (runes_of_ascii "packet A {
-    u32 crc @calculatedFrom(""x\
-y""),
-    @calculatedFrom(""x\
-y"") u8 y,
-}")).
-Eval vm_compute in ("<<<M1370>>>" ++ check (runes_of_ascii "packet o { repeat Logon uint8x , } options { asx = zchar[ 3 ] stringy // c
-= '\x00' }")).
-Eval vm_compute in ("<<<M369>>>" ++ check (runes_of_ascii "MetaData repeatCount
+Eval vm_compute in ("<<<M882>>>" ++ check (runes_of_ascii "
+root packet
+    Packet  { repeat u8
+    Header ,Header
+, char
+msg_type,float64 msg_type`two words` ,
+//	t
+// packet A { u8 x, }
+@leftPad ( ) repeat metadata {
+    matchKey { match MetaDataX
+    as
+float
+// `tick` ""quote"" 'q'
+//
+{
+""a	b"" :	zchar	, 0123456789 : msg_type ,
+""a\""b"": msg_type ,
+    // @lengthOf(
+    [ 3
+    ] : BodyLength, """ ++ [128512]%N ++ runes_of_ascii """:
+    Pad
+, ""`tick`"" : lengthOf , } ,u64
+BodyLength `100% of %d` , u8x@calculatedFrom(""it's"") ,
+    }
+, uint8 len@calculatedFrom(
+""\" ++ [233]%N ++ runes_of_ascii """ )
+    // a // b
+    , T , Z9_ ,	} ,
+match
+    Pad// 50% %s
+as f32a { 65535
+    : _x } , repeat matchKey `crlf
+line` ,
+@lengthOf( i8i8 )
+    f64 A
+@calculatedFrom( ""// no comment"" ) , repeat zchar[ 255 ] float , }
+options {rootA=
+    i64// " ++ [128512]%N ++ runes_of_ascii " emoji
+; } packet
+    Pad
     {
-    } options { // packet A { u8 x, }
-}
-// @lengthOf(
-")).
-Eval vm_compute in ("<<<M1331>>>" ++ check (runes_of_ascii "MetaData body { i64 pack `it's` , } packet stringy { int16 calculatedFrom , // c
-}")).
-Eval vm_compute in ("<<<M1741>>>" ++ check (runes_of_ascii "packet A 
-{match
-k as n{ 
-[""a""
-	,""bb""  ,007
-, ""d""
-]:
-
-B
-2
-	: C
-
-    }	,
-} ")).
-Eval vm_compute in ("<<<M885>>>" ++ check (runes_of_ascii "packet A { Inner { match k as n { [1,22,007,4,5,66,7,8,9,10] : B, }, }, }")).
-Eval vm_compute in ("<<<M1478>>>" ++ check (runes_of_ascii "root packet P {
-    u16 a,
-    u32 Sum @calculatedFrom(""CR\
-C32""),
-}
-")).
-Eval vm_compute in ("<<<M321>>>" ++ check (runes_of_ascii "MetaData // " ++ [128512]%N ++ runes_of_ascii " emoji
-Header { // trailing space 
-u64 falsey ,
-}")).
-Eval vm_compute in ("<<<M759>>>" ++ check (runes_of_ascii "u8 u16 int8 repeat , `it's` true match `a\` root false char")).
-Eval vm_compute in ("<<<M1291>>>" ++ check (runes_of_ascii "packet x { @rightPad ( ) repeat roots
+MetaDataX {
+Z9_
+@lengthOf(
+// " ++ [27880; 37322]%N ++ runes_of_ascii "
+/// triple
+Packet) ``  ,
+x tag ,
+    char[
+//x
+// `tick` ""quote"" 'q'
+0123456789 ] matchKey,  zchar[
+0 ] u8x@calculatedFrom(
+""\" ++ [233]%N ++ runes_of_ascii """ // 50% %s
+) `" ++ [28040; 24687; 31867; 22411]%N ++ runes_of_ascii "`
+    // 50% %s
+    , }
 // c
-Logon `doc` , }")).
-Eval vm_compute in ("<<<M1440>>>" ++ check (runes_of_ascii "root packet P
-	{
-
-    repeat char cs, u8 x
-
-,  }
-
+//
+,
+    @calculatedFrom(""\" ++ [233]%N ++ runes_of_ascii """
+)
+body @lengthOf(  roots ) , f32a	x
+    , roots
+    //	t
+    @lengthOf( MetaDataX )`crlf
+line` , @lengthOf(
+    u8x	)
+    f64
+    Logon @lengthOf(	asx ) , repeat zchar[ 3]
+Packet
+    `say ""hi""`  ,
+i16 // " ++ [27880; 37322]%N ++ runes_of_ascii "
+x @calculatedFrom(
+""packet"" ) ,
+    @rightPad
+    (  ' ' ) @lengthOf(
+a1 ) stringy packetx ,// 50% %s
+As @lengthOf(  u128) , }	root packet
+Logon
+    // c
+    { Pad @calculatedFrom( """"
+    ), }
 ")).
-Eval vm_compute in ("<<<M112>>>" ++ check (runes_of_ascii "MetaData crc { uint8x float
-,}
+Eval vm_compute in ("<<<M1389>>>" ++ check (runes_of_ascii "options	{ x = '0'  } packet calculatedFrom
+{
+    repeat len
+{ f64
+    //	t
+    zchar `
+` ,
+    } ,
+    @rightPad (
+    ' '
+// " ++ [128512]%N ++ runes_of_ascii " emoji
+// 50% %s
+) @calculatedFrom( ""\" ++ [233]%N ++ runes_of_ascii """ )@lengthOf(
+    Header )
+    char[]
+rootA `say ""hi""`,repeat u8
+    // c
+    chars
+    `say ""hi""` ,
+@tag( 42  )
+    @leftPad ('\x00' )@calculatedFrom(  ""\" ++ [233]%N ++ runes_of_ascii """ ) string len @calculatedFrom(  ""x y""
+    )`it's` , u @calculatedFrom( ""a\\"" )
+// " ++ [27880; 37322]%N ++ runes_of_ascii "
 // @lengthOf(
-")).
-Eval vm_compute in ("<<<M31>>>" ++ check (runes_of_ascii "root
-packet uint8x {}root packet  Pad
-{}")).
-Eval vm_compute in ("<<<M371>>>" ++ check (runes_of_ascii "//
-packet u8x{
-    }	packet
-    crc { }")).
-Eval vm_compute in ("<<<M761>>>" ++ check (runes_of_ascii "z;iRL9nW5y;Gl&OOeJQ#l^I{o>x:,gyNu{")).
-Eval vm_compute in ("<<<M169>>>" ++ check (runes_of_ascii "packet
-body { // @lengthOf(
-}")).
-Eval vm_compute in ("<<<M1700>>>" ++ check (runes_of_ascii "root
-packet pack {
-}  // c
-")).
-Eval vm_compute in ("<<<M1706>>>" ++ check (runes_of_ascii "root packet pack {
+`two words` // @lengthOf(
+,  @leftPad
+( ) match	x as	Logon { 00
+    :
+    //
+    metadata, [
+    // a // b
+    ""a\""b""  , 0
+    ,
+// `tick` ""quote"" 'q'
+// trailing space 
+007 , 007 ,007 //	t
+] //
+: body ,
+    007 : As } ,// @lengthOf(
+options1@calculatedFrom( """ ++ [233]%N ++ runes_of_ascii "t" ++ [233]%N ++ runes_of_ascii """
+    )`" ++ [233]%N ++ runes_of_ascii "`
+,/// triple
+repeat
+char[] //x
+x `100% of %d`	,@calculatedFrom(// " ++ [27880; 37322]%N ++ runes_of_ascii "
+""`tick`""  )
+o @calculatedFrom( """ ++ [128512]%N ++ runes_of_ascii """ ) `
+`, } options { // @lengthOf(
+stringy= float32 metadata
+=
+    uint16 repeatCount
+    =""" ++ [28040; 24687]%N ++ runes_of_ascii """; leftPad =	false } packet Z9_// packet A { u8 x, }
+{ @tag(
+00
+//
+//x
+) repeat
+    int
+{ u16// packet A { u8 x, }
+chars
+, }
+,x
+{
+    //	t
+    repeat
+roots,// `tick` ""quote"" 'q'
 }
-// c")).
-Eval vm_compute in ("<<<M1383>>>" ++ check (runes_of_ascii "MetaData // c
-o { }")).
-Eval vm_compute in ("<<<M1022>>>" ++ check (runes_of_ascii "// c" ++ [8287]%N ++ runes_of_ascii "
-packet A {
+, @tag( 0123456789 ) repeat zchar{ char[ 007]i8i8
+    @lengthOf( crc //	t
+) // a // b
+`crlf
+line`, calculatedFrom metadata ,
+//	t
+//	t
+char[ 0123456789 // " ++ [27880; 37322]%N ++ runes_of_ascii "
+]x
+    // " ++ [27880; 37322]%N ++ runes_of_ascii "
+    , } , }
+
+")).
+Eval vm_compute in ("<<<M4028>>>" ++ check (runes_of_ascii "packet len {
+    repeat Pad {
+        match A as x {
+            [
+                ""1"", 42, 0123456789, ""abc"", ""it's"",
+                """ ++ [233]%N ++ runes_of_ascii "t" ++ [233]%N ++ runes_of_ascii """, 7, 10
+            ] : calculatedFrom,
+            0 : len,
+        },
+        int8 string_,// a // b
+        repeat repeatCount,
+    },
+    f64 As,
+    zchar[7] x `" ++ [233]%N ++ runes_of_ascii "`,
+    @calculatedFrom(""a\\"")
+    Header {
+        //x
+        /// triple
+        repeat char[255] metadata,
+        pack @lengthOf(T),
+    },
+}
+
+packet T {
+    float64 u8x `// not a comment`,
+    match u128 as roots {
+        [""" ++ [128512]%N ++ runes_of_ascii """] : msg_type,
+        ""\n"" : u8x,
+        00 : crc,
+    },
+    u16 lengthOf @calculatedFrom(""" ++ [233]%N ++ runes_of_ascii "t" ++ [233]%N ++ runes_of_ascii """),
+    @tag(1)
+    zchar[7] falsey `doc`,
+    char[] metadata,
+    Packet @calculatedFrom(""`tick`""),//	t
+    @tag(42)
+    A,
+    // " ++ [128512]%N ++ runes_of_ascii " emoji
+    // packet A { u8 x, }
+    Packet @calculatedFrom(""{,}""),
+}
+
+options {
+    Pad = false
+    T = '\x00';
+    asx = false;
+    _x = ""\" ++ [233]%N ++ runes_of_ascii """;
+}
+
+packet float {
+    uint8x {
+        repeatCount,
+        u32 lengthOf @calculatedFrom(""a	b"") `" ++ [233]%N ++ runes_of_ascii "`,
+        i16 u,
+    },
+}
+
+root packet Foo {
+    match asx as Foo {
+        [""" ++ [128512]%N ++ runes_of_ascii """, ""1""] : roots,
+        ""`tick`"" : a1,
+        0123456789 : string_,
+    },
 }")).
-Eval vm_compute in ("<<<M1039>>>" ++ check (runes_of_ascii "packet A {
-}// c" ++ [8203]%N)).
-Eval vm_compute in ("<<<M743>>>" ++ check (runes_of_ascii "char[] (")).
-Eval vm_compute in ("<<<M1045>>>" ++ check (runes_of_ascii "// c" ++ [65279]%N)).
+Eval vm_compute in ("<<<M1046>>>" ++ check (runes_of_ascii "packet crc{ repeat
+zchar[
+    7] Foo , repeat // c
+u64
+    pack
+`u8 x,`	, u8x
+{ char[]charz @lengthOf(
+i8i8
+    ) ,repeat crc , metadata { charz
+, options1 string_
+    // `tick` ""quote"" 'q'
+    `crlf
+line`
+, } , char[
+255] trueish , },
+@lengthOf( As )@tag( 65535 )
+u64 i64_ `it's` , len// @lengthOf(
+{
+    metadata
+    {  zchar[ 00
+    ]
+trueish ,// c
+}
+, zchar[
+65535 ]chars ,
+match
+    string_
+as int
+// 50% %s
+// packet A { u8 x, }
+{
+65535 :  metadata	, """ ++ [128512]%N ++ runes_of_ascii """: u
+,	[
+    3// " ++ [27880; 37322]%N ++ runes_of_ascii "
+, 3]
+:
+    As ,  42
+    :int
+, 1 : o , }
+,
+// " ++ [128512]%N ++ runes_of_ascii " emoji
+// @lengthOf(
+}
+    ,	@calculatedFrom(
+""a\""b""
+) char[
+65535 ] _x`
+`	,  @calculatedFrom( ""1""  ) u128 rootA, // packet A { u8 x, }
+int64
+    i64_@lengthOf(charz )
+    `crlf
+line`, repeat roots,
+@lengthOf(
+    _x
+    )
+float
+    @calculatedFrom(""x y"" ) `doc`,}root
+packet  packetx{@rightPad ( )
+    repeat u64 uint8x // @lengthOf(
+,
+@calculatedFrom(  """" )
+@calculatedFrom(
+""" ++ [233]%N ++ runes_of_ascii "t" ++ [233]%N ++ runes_of_ascii """ ) i32 pack// trailing space 
+,
+repeat /// triple
+f64 T
+    `say ""hi""`	, }MetaData	Logon
+{ u8x
+// " ++ [27880; 37322]%N ++ runes_of_ascii "
+// " ++ [128512]%N ++ runes_of_ascii " emoji
+Foo ,
+char[ // `tick` ""quote"" 'q'
+65535]// " ++ [27880; 37322]%N ++ runes_of_ascii "
+int // " ++ [27880; 37322]%N ++ runes_of_ascii "
+, }")).
+Eval vm_compute in ("<<<M734>>>" ++ check (runes_of_ascii "root// 50% %s
+packet
+    // @lengthOf(
+    Foo{ char[] lengthOf ,@rightPad (
+    // c
+    '0' ) string i8i8 ,
+    repeat uint32 u8x
+    // trailing space 
+    ,
+    @tag( 255 ) char[]  leftPad`" ++ [28040; 24687; 31867; 22411]%N ++ runes_of_ascii "` ,falsey @calculatedFrom( ""a	b"")	`crlf
+line` ,	@rightPad
+(
+    ' ' ) zchar[ 65535 ]
+matchKey ,}
+root
+    packet f32a {  repeat packetx
+    ,
+//
+// " ++ [27880; 37322]%N ++ runes_of_ascii "
+@lengthOf( matchKey ) match MetaDataX as i8i8 // trailing space 
+{ 7 :u8x// " ++ [128512]%N ++ runes_of_ascii " emoji
+,
+""a	b""
+// a // b
+// a // b
+: calculatedFrom, }  ,  @calculatedFrom( ""1"" )
+    // `tick` ""quote"" 'q'
+    lengthOf@lengthOf(
+    f32a
+    // trailing space 
+    ) , len A ,
+    chars
+/// triple
+// @lengthOf(
+@lengthOf(calculatedFrom ) ,	zchar[ 0123456789 ] f32a
+, char[]
+// " ++ [128512]%N ++ runes_of_ascii " emoji
+// " ++ [128512]%N ++ runes_of_ascii " emoji
+metadata
+`tab	here` , As @lengthOf( _x
+    )
+    `say ""hi""`  , }
+root packet
+As { int32 metadata
+`" ++ [233]%N ++ runes_of_ascii "`
+//x
+// trailing space 
+, x , } options{ x=
+char[ 10 // a // b
+] ;  x_y_z	= zchar[ // " ++ [27880; 37322]%N ++ runes_of_ascii "
+007 ] // a // b
+; matchKey =
+zchar[
+00 ]
+asx
+// packet A { u8 x, }
+// a // b
+= zchar[ 0123456789  ]
+    //
+    }
+")).
+Eval vm_compute in ("<<<M4201>>>" ++ check (runes_of_ascii "
+root	packet Header
+
+{@lengthOf( x_y_z	// packet A { u8 x, }
+    )	// packet A { u8 x, }
+
+@tag( 
+  //x
+  // 50% %s
+
+  0123456789)@lengthOf( As
+
+)	string
+    len `two words` ,  match
+
+    Pad as
+	_x
+
+    {
+	""\" ++ [233]%N ++ runes_of_ascii """ :Z9_
+    ,} , i8i8 @lengthOf( repeatCount 	 // trailing space 
+	) 
+    //x
+
+//x
+`doc` 
+, char[ 0  // trailing space 
+]
+    chars
+,@leftPad ( ' ' )Logon `tab	here`	,  // c
+  	@calculatedFrom(""\" ++ [233]%N ++ runes_of_ascii """	) 
+repeat 
+zchar
+    {
+zchar[
+4294967296] A
+`
+`
+
+    ,
+    repeat a1
+
+    { //	t
+
+	repeat
+    Header
+,	zchar[ 7 ] packetx
+
+    `{ , }`
+
+    ,
+
+char[ 
+007 ]
+
+_x
+, } ,
+
+match
+	chars
+as o {
+""\" ++ [233]%N ++ runes_of_ascii """
+
+    :	// " ++ [27880; 37322]%N ++ runes_of_ascii "
+	calculatedFrom ""\n""
+:u8x ,
+
+""a	b""
+    :Pad 	 //
+	,	65535:int
+
+    ,
+	}  , char[] float 	 // @lengthOf(
+  @lengthOf(  lengthOf
+
+)	,
+}
+	,
+
+    uint32
+
+asx`
+`
+
+    ,
+    char[] uint8x
+
+@calculatedFrom( //x
+
+	""abc"" 
+) ,
+//
+
+  @tag(
+
+255 )
+
+    @calculatedFrom( 
+""a\\""  ) zchar[ 
+3  ]
+
+    options1
+
+    ,  charz 
+`two words` , 
+// c
+} ")).
+Eval vm_compute in ("<<<M4267>>>" ++ check (runes_of_ascii "
+packet
+u
+	{match Z9_ as  Z9_ { 7
+:
+
+    packetx ,
+
+    } // packet A { u8 x, }
+, uint8x	`// not a comment` , @lengthOf( 
+	    // @lengthOf(
+	x)pack
+	`line1
+line2`
+
+    ,@tag(
+65535)
+x_y_z
+
+    `a\`
+
+,float32	tag `100% of %d`
+, 
+leftPad  leftPad
+
+    ,@calculatedFrom( ""CRC32"" 
+)
+	@rightPad
+(
+' ' 
+)string 
+x
+	    // " ++ [27880; 37322]%N ++ runes_of_ascii "
+		// " ++ [128512]%N ++ runes_of_ascii " emoji
+    	, // " ++ [128512]%N ++ runes_of_ascii " emoji
+      @leftPad  (' ' )i8  
+      // `tick` ""quote"" 'q'
+    // packet A { u8 x, }
+		T @lengthOf( Z9_)
+
+    ,packetx
+	@calculatedFrom(""packet""
+
+    )
+
+,
+} options
+{ u8x =
+007;
+x_y_z
+
+=  ""a	b""; }	packet
+    falsey { @lengthOf(
+int
+
+) @calculatedFrom(  ""// no comment"" )	@calculatedFrom(
+	""" ++ [28040; 24687]%N ++ runes_of_ascii """
+) 
+        // @lengthOf(
+	zchar[ 4294967296 	 //
+]//	t
+  u 
+,
+	int8
+
+BodyLength@lengthOf(	f32a
+	)	,
+	@tag(4294967296)
+
+uint16 calculatedFrom
+
+`doc`
+, float32  As
+
+,} packet
+
+tag
+
+{ }
+
+packet
+
+    leftPad	{ @rightPad 
+(
+
+    )  repeat char[42 ]	i8i8  ,	}
+")).
+Eval vm_compute in ("<<<M4192>>>" ++ check (runes_of_ascii "options {
+    asx = int64;
+    f32a = """ ++ [28040; 24687]%N ++ runes_of_ascii """;
+}
+
+options {
+    // trailing space 
+    repeatCount = ""a	b"";
+}
+
+options {
+    Packet = ""\n""
+}
+
+root packet stringy {
+    char[007] metadata,
+    i8i8 @calculatedFrom(""a\\""),
+    @tag(4294967296)
+    match stringy as msg_type {
+        // trailing space 
+        /// triple
+        [""a	b"", 1, 1, 42, 007] : string_,
+        """ ++ [28040; 24687]%N ++ runes_of_ascii """ : string_,
+        42 : lengthOf,
+        [""a\\"", 65535] : _x,
+    },
+    zchar leftPad `a\`,
+    Foo {
+        u64 falsey `" ++ [233]%N ++ runes_of_ascii "`,
+    },
+    @calculatedFrom(""CRC32"")
+    @tag(65535)
+    i16 leftPad @calculatedFrom(""" ++ [28040; 24687]%N ++ runes_of_ascii """),// " ++ [27880; 37322]%N ++ runes_of_ascii "
+    asx,
+    repeat matchKey,
+    @rightPad(' ')
+    int32 metadata `{ , }`,
+    match options1 as Foo {
+        255 : i64_,
+        [""a\\""] : lengthOf,
+        ""it's"" : int,
+        3 : zchar,
+        // c
+    },
+}
+
+MetaData As {
+    //
+    chars calculatedFrom `crlf
+    line`,
+}")).
+Eval vm_compute in ("<<<M1031>>>" ++ check (runes_of_ascii "MetaData leftPad { // `tick` ""quote"" 'q'
+calculatedFrom
+    T,
+float64  roots `say ""hi""`, uint32 leftPad
+    `100% of %d`,	zchar[
+00] _x
+//x
+//x
+,
+// " ++ [128512]%N ++ runes_of_ascii " emoji
+/// triple
+} packet string_ { }
+    MetaData calculatedFrom{float
+Z9_ , Z9_ T`tab	here`,zchar[
+    3
+    // " ++ [128512]%N ++ runes_of_ascii " emoji
+    ]
+leftPad `{ , }`  ,string T `" ++ [233]%N ++ runes_of_ascii "`
+, char[] lengthOf
+    `" ++ [28040; 24687; 31867; 22411]%N ++ runes_of_ascii "`
+, }root packet Header
+    {repeat zchar[0123456789]x
+, char[ 3 ] options1
+    @lengthOf( i8i8
+)  ,repeatCount ,@lengthOf(BodyLength ) i16 f32a ,	char  leftPad
+@lengthOf(  uint8x )	,@lengthOf( repeatCount  ) char[]
+    falsey // a // b
+@lengthOf( Foo )`tab	here`, @tag(
+    1)string// `tick` ""quote"" 'q'
+rootA // packet A { u8 x, }
+, repeat
+    u16 crc `doc` , } root packet // " ++ [128512]%N ++ runes_of_ascii " emoji
+BodyLength
+{@tag( 3) // c
+@lengthOf(
+rootA) match Pad as//
+zchar { ""a\\"": /// triple
+options1 , } , }
+")).
+Eval vm_compute in ("<<<M3626>>>" ++ check (runes_of_ascii "
+// top
+
+packet
+    // c0
+  A
+	// c1
+    { 
+      // c2
+		match 
+// c3
+  packetx 
+    // c4
+
+  as 
+    // c5
+      BodyLength 
+    // c6
+  { 
+  // c7
+      007
+
+    // c8
+    :
+	// c9
+  A 
+
+    // c10
+      """ ++ [28040; 24687]%N ++ runes_of_ascii """
+// c11
+	:  
+      // c12
+x_y_z 
+    // c13
+	, 
+
+    // c14
+    """ ++ [128512]%N ++ runes_of_ascii """
+        // c15
+  : 
+	// c16
+  	crc
+
+// c17
+  [  
+  // c18
+
+	""{,}"" 
+
+// c19
+    , 
+
+    // c20
+""\n"" 
+// c21
+	,  
+  // c22
+
+""" ++ [233]%N ++ runes_of_ascii "t" ++ [233]%N ++ runes_of_ascii """ 
+	    // c23
+    ,  
+  // c24
+""x y""  
+  // c25
+  ,
+    // c26
+""a\""b""
+
+    // c27
+  ] 
+
+    // c28
+:
+        // c29
+
+	stringy 
+    // c30
+
+  ,
+        // c31
+  } 
+        // c32
+,  
+      // c33
+    }
+    // c34
+  root
+// c35
+
+	packet
+// c36
+i64_
+
+// c37
+	  {
+
+// c38
+    	repeat 
+// c39
+	  pack
+    // c40
+`100% of %d`
+        // c41
+  	,  
+  // c42
+} 
+
+    // c43
+")).
+Eval vm_compute in ("<<<M609>>>" ++ check (runes_of_ascii "
+packet o
+{
+    repeat
+uint16
+    chars
+    ,
+    // " ++ [27880; 37322]%N ++ runes_of_ascii "
+    }
+    /// triple
+    options { x=	char[ 42] ;}packet	u8x // packet A { u8 x, }
+{
+    repeat lengthOf `a\`,// 50% %s
+matchKey leftPad`{ , }`, @tag(7 ) //
+char[00 ] tag `" ++ [28040; 24687; 31867; 22411]%N ++ runes_of_ascii "` , match
+    msg_type as	x_y_z
+    {	255 :
+    calculatedFrom
+    // " ++ [128512]%N ++ runes_of_ascii " emoji
+    , 7
+:
+    charz
+    [ """ ++ [233]%N ++ runes_of_ascii "t" ++ [233]%N ++ runes_of_ascii """
+,	""it's"" ] : uint8x ,
+    ""\" ++ [233]%N ++ runes_of_ascii """: u8x ,
+    /// triple
+    [ 3 , 42 , """ ++ [28040; 24687]%N ++ runes_of_ascii """, 00 ,
+    00 , """ ++ [233]%N ++ runes_of_ascii "t" ++ [233]%N ++ runes_of_ascii """ , ""1""
+]: crc , }	,repeat
+    // " ++ [27880; 37322]%N ++ runes_of_ascii "
+    a1// " ++ [27880; 37322]%N ++ runes_of_ascii "
+u128//
+, @calculatedFrom( """ ++ [233]%N ++ runes_of_ascii "t" ++ [233]%N ++ runes_of_ascii """ ) repeat
+// " ++ [27880; 37322]%N ++ runes_of_ascii "
+// 50% %s
+calculatedFrom
+len`` , u16 x  `say ""hi""` ,
+uint32
+rootA @lengthOf(
+    Header	) `crlf
+line` , @rightPad (' ') @leftPad
+    //x
+    ( ) @calculatedFrom(	""a\""b"" )zchar[3] Foo@calculatedFrom( ""`tick`"" ) , len roots
+,
+}")).
+Eval vm_compute in ("<<<M508>>>" ++ check (runes_of_ascii "root packet // @lengthOf(
+Foo { @lengthOf(
+    Logon )	@calculatedFrom(  ""{,}"" )
+@calculatedFrom( ""`tick`""
+) match
+    roots as charz { 7 :
+// a // b
+/// triple
+string_ } , u64 u @calculatedFrom( //x
+""\" ++ [233]%N ++ runes_of_ascii """ ),
+@tag(  007 ) @lengthOf( zchar) match body// 50% %s
+as trueish{ [	10
+,// @lengthOf(
+""packet""
+, 3//	t
+,0 ,
+    00 , """" ]
+    //	t
+    :  repeatCount , [4294967296 ]	: Logon
+[ ""CRC32""  ,""it's""  ] :
+    x_y_z ,}
+    , }	packet/// triple
+repeatCount	{matchKey{
+    repeat  char crc
+    ,char[  10 ]u8x @calculatedFrom(
+""1""
+    ) ,	char[]matchKey
+    @lengthOf( o ) , } , i32 T @lengthOf(	crc
+    )`" ++ [233]%N ++ runes_of_ascii "` , @lengthOf( Foo )calculatedFrom
+// trailing space 
+// @lengthOf(
+@lengthOf(
+options1 ),	Packet //x
+@lengthOf(
+repeatCount )
+,
+}")).
+Eval vm_compute in ("<<<M586>>>" ++ check (runes_of_ascii "packet repeatCount
+{ char[
+    00 ] uint8x ,
+    // a // b
+    @calculatedFrom(
+""a\\"" ) asx
+    @lengthOf( charz ) ,} packet string_
+{ @calculatedFrom( ""it's"" )repeat
+// 50% %s
+//
+char[]BodyLength , @calculatedFrom(
+""abc"") int32	x,@tag( 255 ) @calculatedFrom( """ ++ [28040; 24687]%N ++ runes_of_ascii """ ) @tag(
+0123456789	) char[ 65535 // `tick` ""quote"" 'q'
+] len	, @tag( 0123456789	) @lengthOf( stringy ) int
+/// triple
+/// triple
+, @tag(
+// `tick` ""quote"" 'q'
+//	t
+65535) MetaDataX { A `it's`,
+float64 options1
+@calculatedFrom(
+""// no comment"" )
+    , } , @rightPad ( '\x00'
+    ) zchar[ 007
+    ] rootA @lengthOf( lengthOf )
+`" ++ [28040; 24687; 31867; 22411]%N ++ runes_of_ascii "`
+/// triple
+// @lengthOf(
+,	@lengthOf( crc ) repeat	string charz,
+    @tag(1 ) repeat a1 ,
+    }")).
+Eval vm_compute in ("<<<M4039>>>" ++ check (runes_of_ascii "options
+{ Header
+=  ""a\\""}packet x 
+{
+}  packet
+repeatCount  {
+zchar[
+	00 ]
+
+asx ,
+
+    @calculatedFrom(
+""// no comment"")
+
+    match body
+
+    as
+Logon
+
+{ ""abc"" : 
+chars  42 :A,
+""// no comment"" : crc ,	[
+""""	]
+
+    :
+f32a
+,4294967296  : falsey
+	""x y"" :
+u8x  } , 
+@rightPad (
+' '
+) u32 stringy@lengthOf(
+
+    lengthOf )
+	, Foo `say ""hi""`	// packet A { u8 x, }
+,crc
+`100% of %d`
+,@leftPad
+
+    (
+
+'\x00' )
+	u8x o,zchar[ 255
+] tag `u8 x,`
+, 
+} packet f32a {}
+    // @lengthOf(
+		// @lengthOf(
+    root  packet 
+      // packet A { u8 x, }
+	// 50% %s
+	msg_type	{@calculatedFrom( ""`tick`"" )char[]
+
+    crc
+
+,
+    int
+
+    options1
+, //
+      asx,
+
+} ")).
+Eval vm_compute in ("<<<M482>>>" ++ check (runes_of_ascii "packet chars { // " ++ [27880; 37322]%N ++ runes_of_ascii "
+@tag( 1 )crc,repeat
+    T
+{ lengthOf
+@lengthOf(	chars)
+`{ , }` , repeat zchar[0123456789 ]
+int , } , repeat // " ++ [27880; 37322]%N ++ runes_of_ascii "
+zchar[ 42] x
+`two words` ,	zchar[ 65535 ]
+asx
+    // @lengthOf(
+    , calculatedFrom , _x
+leftPad
+    // trailing space 
+    ,//x
+Pad
+    { int16 x `tab	here` ,
+    } , i64 charz @calculatedFrom(""abc""  ) , }options {a1
+= 42 Packet
+    =true ; // packet A { u8 x, }
+Foo
+= '0'
+    As = true
+; /// triple
+Foo	= zchar[ 3
+    ]
+; }
+packet
+    a1{@calculatedFrom(
+""abc"" //x
+)metadata , @rightPad ( '0' ) Z9_
+    ,
+@lengthOf(packetx ) o @lengthOf( Header  ) `it's`
+    , char[]
+int
+    @lengthOf( msg_type )
+    ,
+}")).
+Eval vm_compute in ("<<<M637>>>" ++ check (runes_of_ascii "root packet
+// " ++ [27880; 37322]%N ++ runes_of_ascii "
+// trailing space 
+crc
+// `tick` ""quote"" 'q'
+//x
+{
+int8 Header `a\`
+    ,
+// c
+// @lengthOf(
+@leftPad (
+    ' '
+    )repeat calculatedFrom`
+`
+    , int32 matchKey
+, @leftPad ( )@lengthOf(
+    u ) @calculatedFrom(// a // b
+""""  )repeat // @lengthOf(
+char[]
+    string_ , uint64 _x ,@leftPad (' ' )  string body // trailing space 
+@calculatedFrom( ""a\\"" )
+`{ , }` , @calculatedFrom( ""a	b"" ) @calculatedFrom(
+    ""// no comment"" )char[]
+Packet// packet A { u8 x, }
+@calculatedFrom( ""a\""b"" ) `say ""hi""` ,
+    // @lengthOf(
+    crc
+tag
+// " ++ [128512]%N ++ runes_of_ascii " emoji
+//
+,@leftPad
+    ( '\x00' //x
+) @calculatedFrom( ""\n""	) _x
+, }
+")).
+Eval vm_compute in ("<<<M109>>>" ++ check (runes_of_ascii "packet
+calculatedFrom { Header @lengthOf( T
+    )
+    `" ++ [233]%N ++ runes_of_ascii "`
+,}
+root
+packet T
+{
+    @tag( 4294967296) // a // b
+string
+    string_
+// packet A { u8 x, }
+// `tick` ""quote"" 'q'
+@calculatedFrom(
+// trailing space 
+/// triple
+""""), zchar[
+007 ]  i64_, // " ++ [27880; 37322]%N ++ runes_of_ascii "
+@tag( 4294967296) msg_type	@calculatedFrom( ""1""	) ,
+x
+{
+    // c
+    Packet, }, repeat u8 T
+// c
+/// triple
+`a\` ,f32a
+// trailing space 
+//	t
+@lengthOf( float
+    // packet A { u8 x, }
+    ) , @calculatedFrom( """ ++ [233]%N ++ runes_of_ascii "t" ++ [233]%N ++ runes_of_ascii """ )match crc
+as
+repeatCount{ ""a	b"": pack, } , @calculatedFrom(
+    ""it's""
+)f64
+uint8x @lengthOf(crc ) `two words` ,
+char[] tag ,}
+")).
+Eval vm_compute in ("<<<M68>>>" ++ check (runes_of_ascii "// packet A { u8 x, }
+MetaData len { uint16 stringy	`tab	here` , char  msg_type ,}packet Header{leftPad{ trueish , u
+, repeat crc asx ,
+} , @calculatedFrom(""" ++ [128512]%N ++ runes_of_ascii """
+) // packet A { u8 x, }
+uint32
+int ,calculatedFrom @calculatedFrom( ""\n"") , @leftPad (
+    ' ' )@calculatedFrom( """ ++ [233]%N ++ runes_of_ascii "t" ++ [233]%N ++ runes_of_ascii """ )@tag( 007 )
+    // packet A { u8 x, }
+    char[ 00] As , } packet _x { /// triple
+@calculatedFrom( """ ++ [128512]%N ++ runes_of_ascii """	) repeat calculatedFrom
+`" ++ [28040; 24687; 31867; 22411]%N ++ runes_of_ascii "`,@tag( 10
+)
+// a // b
+// c
+repeat
+    Foo, @calculatedFrom(
+    // @lengthOf(
+    ""abc"") @calculatedFrom(""x y"") @lengthOf( i64_) repeat Z9_
+    int
+    `u8 x,` ,
+}")).
+Eval vm_compute in ("<<<M134>>>" ++ check (runes_of_ascii "root
+packet // packet A { u8 x, }
+MetaDataX	{
+    match msg_type as _x{ ""CRC32"": pack //
+, } ,@calculatedFrom( ""1""	) repeat
+charz { chars{ u64 tag `u8 x,` ,
+    repeat
+    a1
+{match
+charz // " ++ [128512]%N ++ runes_of_ascii " emoji
+as Logon { 0 : // " ++ [27880; 37322]%N ++ runes_of_ascii "
+Packet , 4294967296 :
+    f32a[""\" ++ [233]%N ++ runes_of_ascii """ , 4294967296 , ""x y"" , 65535
+,  """ ++ [128512]%N ++ runes_of_ascii """, 7 ]:
+    trueish , 007:Foo, ""packet""
+: rootA , } ,
+falsey
+    @calculatedFrom(""1""
+    // `tick` ""quote"" 'q'
+    )
+, } , // `tick` ""quote"" 'q'
+char[]len  ,} ,match trueish as crc { 42
+: chars } , int64 MetaDataX@calculatedFrom( ""`tick`"" )	`100% of %d` , } ,
+}
+")).
+Eval vm_compute in ("<<<M3489>>>" ++ check (runes_of_ascii "packet Sub
+    // c1
+{
+    // c2
+u8 // c3a
+  // c3b
+a // c4
+, // c5
+u16
+    // c6
+SubSum // c7a
+  // c7b
+@calculatedFrom( ""CRC16"" // c9a
+  // c9b
+) // c10
+,
+    // c11
+} // c12a
+  // c12b
+root packet Frame
+    // c15
+{
+    // c16
+u16
+    // c17
+MsgType // c18
+,
+    // c19
+u16 BodyLen // c21
+@lengthOf( // c22
+Body ) // c24a
+  // c24b
+, // c25a
+  // c25b
+Sub
+    // c26
+Body , string // c29
+note ,
+    // c31
+u16 // c32
+Checksum @calculatedFrom(
+    // c34
+""CRC16"" // c35
+) // c36
+, // c37
+u8 tail ,
+    // c40
+} // c41a
+  // c41b
+")).
+Eval vm_compute in ("<<<M486>>>" ++ check (runes_of_ascii "packet lengthOf { @calculatedFrom(""`tick`"" ) @calculatedFrom( ""x y"" )@tag(
+    42 ) i8i8`` , match MetaDataX
+    as len { 4294967296
+: roots	, """ ++ [28040; 24687]%N ++ runes_of_ascii """
+: u128
+, """ ++ [233]%N ++ runes_of_ascii "t" ++ [233]%N ++ runes_of_ascii """ // 50% %s
+:	packetx } ,	@tag(255 ) match i64_ as	Z9_
+    { [ ""a	b""
+]
+    :stringy , // " ++ [27880; 37322]%N ++ runes_of_ascii "
+""abc""
+    :
+matchKey // `tick` ""quote"" 'q'
+[	00
+,
+    42 , """ ++ [233]%N ++ runes_of_ascii "t" ++ [233]%N ++ runes_of_ascii """ ,""""
+,	""abc""
+] :  i8i8
+,	65535 // trailing space 
+: body ,
+""x y"" : zchar ,[
+""" ++ [233]%N ++ runes_of_ascii "t" ++ [233]%N ++ runes_of_ascii """]
+    : packetx } ,
+    @lengthOf(
+matchKey )int`
+`, @lengthOf(  chars //x
+) float32
+matchKey //x
+, }")).
+Eval vm_compute in ("<<<M1178>>>" ++ check (runes_of_ascii "root packet
+// `tick` ""quote"" 'q'
+// packet A { u8 x, }
+chars
+    {  } packet
+rootA {
+    repeat x_y_z{ BodyLength
+{repeat Z9_ {
+    crc	falsey `it's`// a // b
+,
+i64 len
+// c
+/// triple
+@calculatedFrom(
+""{,}"" ) , }
+, } ,	body _x , zchar[ 42
+] asx
+`two words` , repeat string u `" ++ [233]%N ++ runes_of_ascii "`
+    // packet A { u8 x, }
+    , } ,
+float64 // " ++ [128512]%N ++ runes_of_ascii " emoji
+uint8x `it's`
+, Pad	, @tag( 007	)
+    /// triple
+    Foo
+    @calculatedFrom(
+    ""// no comment"" ) `100% of %d`
+// `tick` ""quote"" 'q'
+//x
+, }
+")).
+Eval vm_compute in ("<<<M598>>>" ++ check (runes_of_ascii "packet
+    u8x {
+pack	@calculatedFrom( ""a	b"") , }packet u // @lengthOf(
+{ calculatedFrom @calculatedFrom(
+""\" ++ [233]%N ++ runes_of_ascii """ )  `say ""hi""`
+    , trueish @lengthOf( calculatedFrom
+), u8 trueish `` ,
+    zchar[
+    0123456789 ]
+int @calculatedFrom(
+""packet"")
+    ,	@leftPad (
+'0'
+    )
+// trailing space 
+/// triple
+@tag( 007 ) match matchKey // " ++ [27880; 37322]%N ++ runes_of_ascii "
+as _x{ ""packet"" : Header , } , char[]
+    asx@lengthOf(	f32a ) , options1@lengthOf(
+matchKey )// c
+`a\`
+    ,
+} // " ++ [128512]%N ++ runes_of_ascii " emoji")).
+Eval vm_compute in ("<<<M1167>>>" ++ check (runes_of_ascii "
+packet
+i8i8
+{ // 50% %s
+@rightPad
+( ' ' )
+@lengthOf( i64_ )@calculatedFrom(
+""abc""
+)
+string crc	@calculatedFrom( """ ++ [128512]%N ++ runes_of_ascii """
+) ,	char[
+7 ] float  @calculatedFrom( ""{,}""
+    )
+    ,@rightPad( '\x00')match _x
+as As	{
+// " ++ [27880; 37322]%N ++ runes_of_ascii "
+// `tick` ""quote"" 'q'
+""\n""
+:	asx[ 7 , """ ++ [28040; 24687]%N ++ runes_of_ascii """
+    , ""\n""	, 0
+    , 1 ] : leftPad,	0123456789	: len """ ++ [128512]%N ++ runes_of_ascii """ : Header
+,
+""a\\""
+: // " ++ [27880; 37322]%N ++ runes_of_ascii "
+u
+, 4294967296 /// triple
+:
+    a1 } , @calculatedFrom(""\n"" ) float32 Header``
+,// " ++ [128512]%N ++ runes_of_ascii " emoji
+}
+")).
+Eval vm_compute in ("<<<M469>>>" ++ check (runes_of_ascii "packet f32a // c
+{
+    @calculatedFrom( """ ++ [128512]%N ++ runes_of_ascii """
+) char[
+65535
+    ] Logon , } packet calculatedFrom {
+/// triple
+//
+char[ /// triple
+00
+] x`{ , }` ,
+    // 50% %s
+    @lengthOf(A  )
+@tag( 00) @lengthOf( MetaDataX)repeat chars
+{
+repeat Logon {
+zchar[
+    007	]	uint8x
+    ,	}
+,	len @lengthOf( charz)`` //
+,/// triple
+}
+, @calculatedFrom(// 50% %s
+""{,}"" ) repeat Logon  { uint64
+len @lengthOf(u8x ) ,
+}	, }
+packet u128 { }")).
+Eval vm_compute in ("<<<M3761>>>" ++ check (runes_of_ascii "packet metadata {
+    uint8x {
+        repeat u16 string_,
+    },
+}
+
+packet MetaDataX {
+    @rightPad(' ')
+    tag {
+        zchar[007] tag @calculatedFrom(""1""),
+        string u,
+        repeat A T,
+        // 50% %s
+        // packet A { u8 x, }
+        roots @lengthOf(Logon),
+    },
+    @calculatedFrom(""" ++ [28040; 24687]%N ++ runes_of_ascii """)
+    repeat string_ `tab	here`,
+}
+
+packet x {
+    float32 BodyLength @lengthOf(Header) `doc`,
+}")).
+Eval vm_compute in ("<<<M3932>>>" ++ check (runes_of_ascii "// `tick` ""quote"" 'q'
+packet u {
+}
+
+MetaData Packet {
+    int64 u128,
+    x crc `
+        `,
+    float64 len,
+    f32 A `
+        `,// 50% %s
+}
+
+//x
+// `tick` ""quote"" 'q'
+root packet crc {
+    body {
+        f64 leftPad,
+        a1,
+    },
+    repeat uint8x {
+        repeat f32 string_ `
+                `,
+        int8 T @calculatedFrom("""") `say ""hi""`,
+        uint8 repeatCount,
+    },
+}")).
+Eval vm_compute in ("<<<M159>>>" ++ check (runes_of_ascii "MetaData A // a // b
+{
+    uint32 T
+`doc` , uint32 BodyLength `{ , }`
+    ,
+    Foo f32a, i32 falsey , }
+    root	packet _x {
+repeat float32 pack  `doc`
+// packet A { u8 x, }
+// packet A { u8 x, }
+,	char[ // @lengthOf(
+3 ] float //
+`` , match x as int{ ""`tick`"" :string_ ,}, repeat
+repeatCount // `tick` ""quote"" 'q'
+asx`say ""hi""` ,
+zchar[
+    10]roots, // 50% %s
+}
+")).
+Eval vm_compute in ("<<<M4164>>>" ++ check (runes_of_ascii "MetaData chars// trailing space 
+
+{	zchar[	255
+]  uint8x
+,
+    u8
+
+    body , // " ++ [27880; 37322]%N ++ runes_of_ascii "
+  char[
+
+1
+] // packet A { u8 x, }
+    	A 
+    //	t
+    // a // b
+	, 
+float32
+
+As`` 	 // @lengthOf(
+
+,	BodyLength  roots //
+  `// not a comment`
+	, } options
+{ 
+Pad =
+    42
+
+; pack
+
+    = 
+true 
+pack
+=	false
+
+    ; // 50% %s
+	len=	' '// trailing space 
+	;
+	} ")).
+Eval vm_compute in ("<<<M267>>>" ++ check (runes_of_ascii "packet As { // c
+repeat int32
+charz `doc` , }
+MetaData options1 //x
+{ } MetaData BodyLength { falsey u8x
+// a // b
+// packet A { u8 x, }
+`two words`, string_ u8x
+`{ , }` , string_	i64_
+//x
+// " ++ [128512]%N ++ runes_of_ascii " emoji
+`100% of %d`,
+int8 asx
+`tab	here`
+    ,
+    } packet f32a{ @leftPad ( ' ') char[ 1 ] msg_type
+@calculatedFrom( ""it's"" ),  msg_type, }
+")).
+Eval vm_compute in ("<<<M1288>>>" ++ check (runes_of_ascii "// c
+options{
+chars = '\x00' ; pack = true
+float
+=0123456789// c
+}packet i64_ { string lengthOf
+    @lengthOf(
+    u8x // " ++ [128512]%N ++ runes_of_ascii " emoji
+)
+    `it's`	, msg_type	`" ++ [233]%N ++ runes_of_ascii "` ,
+    f32 body `line1
+line2`,A // " ++ [27880; 37322]%N ++ runes_of_ascii "
+{zchar[0] Foo // 50% %s
+@lengthOf( x ) ,
+i32 body @calculatedFrom(""`tick`"" )`doc`
+,
+} ,u8	i8i8 @lengthOf( Logon //
+) `a\`, } 	 ")).
+Eval vm_compute in ("<<<M266>>>" ++ check (runes_of_ascii "
+packet stringy
+    { // c
+u8 Header// 50% %s
+@calculatedFrom(
+""it's""), calculatedFrom f32a, zchar[
+    /// triple
+    7
+] chars
+@lengthOf( x ),repeat
+As //x
+{ u8x crc
+`
+` ,	} , @tag(7) //x
+i16 rootA `it's`	, @calculatedFrom( """ ++ [128512]%N ++ runes_of_ascii """ ) i8 i8i8 `line1
+line2` ,
+repeat  char charz `say ""hi""` , } options
+    { }")).
+Eval vm_compute in ("<<<M1132>>>" ++ check (runes_of_ascii "
+root // " ++ [128512]%N ++ runes_of_ascii " emoji
+packet MetaDataX {  @leftPad(
+' ' )  crc @calculatedFrom( """ ++ [128512]%N ++ runes_of_ascii """ )
+    , @tag( 4294967296 )
+    @leftPad( )
+@lengthOf( body ) // " ++ [27880; 37322]%N ++ runes_of_ascii "
+Header
+    `doc` , }
+    options
+{ chars='0'
+    Packet =
+'0'
+    // `tick` ""quote"" 'q'
+    int =
+    ""a\\"" tag =
+'0'
+//
+// packet A { u8 x, }
+; }
+")).
+Eval vm_compute in ("<<<M54>>>" ++ check (runes_of_ascii "options { /// triple
+BodyLength =
+// a // b
+// c
+""`tick`"" ;  }
+packet Header
+{// c
+u8x { T
+    {i64_ ,
+} ,match tag as//
+u128 // a // b
+{
+00	: crc ,""\n""	:metadata 255 :
+    trueish [ 0 ]
+    : msg_type , [
+""a\\""] :u
+, } , f32
+i64_`" ++ [233]%N ++ runes_of_ascii "`	, repeat u
+,}
+,
+u16
+T ,
+f64 BodyLength , } 	 ")).
+Eval vm_compute in ("<<<M1562>>>" ++ check (runes_of_ascii "// 50% %s
+packet	a1
+    { zchar[
+// a // b
+// 50% %s
+007]
+T `it's`
+    ,@rightPad @rightPad
+    // a // b
+    (
+'\x00')
+    o repeatCount , }  packet Logon {  }packet	Logon //x
+{ repeat // " ++ [128512]%N ++ runes_of_ascii " emoji
+uint16 u128
+    //
+    `a\`,
+falsey
+@calculatedFrom(""packet"" ) ,
+    } 	 ")).
+Eval vm_compute in ("<<<M1627>>>" ++ check (runes_of_ascii "// 50% %s
+packet	a1
+    { zchar[
+// a // b
+// 50% %s
+007]
+T `it's`
+    ,@rightPad
+    // a // b
+    (
+'\x00')
+    o repeatCount , }  packet Logon {  }packet	Logon Logon //x
+{ repeat // " ++ [128512]%N ++ runes_of_ascii " emoji
+uint16 u128
+    //
+    `a\`,
+falsey
+@calculatedFrom(""packet"" ) ,
+    } 	 ")).
+Eval vm_compute in ("<<<M1549>>>" ++ check (runes_of_ascii "// 50% %s
+packet	a1
+    { zchar[
+// a // b
+// 50% %s
+007]
+f64 `it's`
+    ,@rightPad
+    // a // b
+    (
+'\x00')
+    o repeatCount , }  packet Logon {  }packet	Logon //x
+{ repeat // " ++ [128512]%N ++ runes_of_ascii " emoji
+uint16 u128
+    //
+    `a\`,
+falsey
+@calculatedFrom(""packet"" ) ,
+    } 	 ")).
+Eval vm_compute in ("<<<M1703>>>" ++ check (runes_of_ascii "// 50% %s
+packet	a1
+    { zchar[
+// a // b
+// 50% %s
+007]
+T `it's`
+    ,@rightPad
+    // a // b
+    (
+'\x00')
+    o repeatCount , }  packet Logon {  }packet	Logon //x
+{ repeat // " ++ [128512]%N ++ runes_of_ascii " emoji
+u%int16 u128
+    //
+    `a\`,
+falsey
+@calculatedFrom(""packet"" ) ,
+    } 	 ")).
+Eval vm_compute in ("<<<M1663>>>" ++ check (runes_of_ascii "// 50% %s
+packet	a1
+    { zchar[
+// a // b
+// 50% %s
+007]
+T `it's`
+    ,@rightPad
+    // a // b
+    (
+'\x00')
+    o repeatCount , }  packet Logon {  }packet	Logon //x
+{ repeat // " ++ [128512]%N ++ runes_of_ascii " emoji
+uint16 u128
+    //
+    `a\`,
+@calculatedFrom(
+falsey""packet"" ) ,
+    } 	 ")).
+Eval vm_compute in ("<<<M1257>>>" ++ check (runes_of_ascii "root packet
+metadata {
+}// " ++ [128512]%N ++ runes_of_ascii " emoji
+packet tag { @leftPad
+    ('0'
+)	@lengthOf(	asx//
+) @rightPad ( // " ++ [128512]%N ++ runes_of_ascii " emoji
+'\x00') repeat u16 stringy`
+`
+    , } options{ Foo =
+    ""// no comment""leftPad
+= false
+; }
+    packet
+chars{ string
+uint8x @lengthOf(float
+) , }
+")).
+Eval vm_compute in ("<<<M1636>>>" ++ check (runes_of_ascii "// 50% %s
+packet	a1
+    { zchar[
+// a // b
+// 50% %s
+007]
+T `it's`
+    ,@rightPad
+    // a // b
+    (
+'\x00')
+    o repeatCount , }  packet Logon {  }packet	Logon //x
+{  // " ++ [128512]%N ++ runes_of_ascii " emoji
+uint16 u128
+    //
+    `a\`,
+falsey
+@calculatedFrom(""packet"" ) ,
+    } 	 ")).
+Eval vm_compute in ("<<<M3933>>>" ++ check (runes_of_ascii "root packet//
+
+metadata// " ++ [27880; 37322]%N ++ runes_of_ascii "
+	  { // 50% %s
+@calculatedFrom(
+
+    ""1"" ) repeat i16  body 
+, 
+  // @lengthOf(
+
+// c
+    @calculatedFrom(	// 50% %s
+""a	b""  // 50% %s
+    )
+
+char roots  `{ , }`, 
+repeat	zchar[	10]  pack 	 // a // b
+    `doc`	,}  //
+")).
+Eval vm_compute in ("<<<M576>>>" ++ check (runes_of_ascii "  packet
+    zchar
+    {	stringy
+a1
+/// triple
+//	t
+`
+`
+    , int16 falsey  @lengthOf( MetaDataX ) `say ""hi""` , @lengthOf(zchar ) zchar[ 65535] _x
+`u8 x,`
+,i64
+// trailing space 
+// " ++ [128512]%N ++ runes_of_ascii " emoji
+Foo ,
+} packet uint8x {} MetaData // c
+u8x {
+}
+")).
+Eval vm_compute in ("<<<M638>>>" ++ check (runes_of_ascii "options	{ MetaDataX =uint8 } root packet
+leftPad
+    { @calculatedFrom(
+    ""{,}""
+    ) @lengthOf(	charz
+    ) repeat
+    char[]
+    // " ++ [128512]%N ++ runes_of_ascii " emoji
+    tag  ,uint8 Header `say ""hi""`	, } packet i8i8	{ @lengthOf(
+    string_ ) Z9_ o
+,}")).
+Eval vm_compute in ("<<<M1373>>>" ++ check (runes_of_ascii "
+root packet chars{
+@lengthOf(As ) @tag(4294967296 ) string tag
+@calculatedFrom(
+//x
+// @lengthOf(
+""{,}"" ) `tab	here`
+,
+} options { u128
+=
+    true
+}packet trueish // a // b
+{}MetaData len
+{ int16 crc`100% of %d`,	}")).
+Eval vm_compute in ("<<<M55>>>" ++ check (runes_of_ascii "options {
+leftPad
+=""x y""
+    T
+    =
+true ;
+    } options	{ _x=u8; } options  { u8x // `tick` ""quote"" 'q'
+= char[ 1 ]	;
+    // trailing space 
+    metadata
+    =float32 charz
+= false ;
+int = true
+} // a // b")).
+Eval vm_compute in ("<<<M4159>>>" ++ check (runes_of_ascii "packet calculatedFrom {
+    @calculatedFrom(""" ++ [128512]%N ++ runes_of_ascii """)
+    // @lengthOf(
+    repeat zchar[007] i8i8,
+    @calculatedFrom(""// no comment"")
+    char[] x_y_z,
+}
+
+root packet u128 {
+    i64 int @lengthOf(f32a),
+}")).
+Eval vm_compute in ("<<<M976>>>" ++ check (runes_of_ascii "// " ++ [27880; 37322]%N ++ runes_of_ascii "
+packet rootA{string
+    // 50% %s
+    Pad `{ , }` , } root
+packet// trailing space 
+repeatCount { @lengthOf( Header //x
+)int64 As
+    `{ , }` ,}
+options
+    { charz =false } /// triple")).
+Eval vm_compute in ("<<<M910>>>" ++ check (runes_of_ascii "MetaData i64_ {	string // " ++ [27880; 37322]%N ++ runes_of_ascii "
+T ,i64 Logon , string_ repeatCount `a\` ,	T	i8i8 , asx o , } packet Foo
+// c
+// c
+{ char[]
+    body @calculatedFrom(
+    """"
+) , }
+// packet A { u8 x, }
+")).
+Eval vm_compute in ("<<<M3405>>>" ++ check (runes_of_ascii "packet A {
+    u8 a,
+}
+packet B {
+    u16 b,
+}
+root packet P {
+    u8 K1,
+    u8 K2,
+    match K1 as M1 {
+        1 : A,
+    },
+    match K2 as M2 {
+        1 : B,
+    },
+}
+")).
+Eval vm_compute in ("<<<M3618>>>" ++ check (runes_of_ascii "root packet len {
+    stringy @calculatedFrom(""\n"") `line1
+        line2`,
+    i32 As `" ++ [233]%N ++ runes_of_ascii "`,
+    @calculatedFrom(""\" ++ [233]%N ++ runes_of_ascii """)
+    repeat uint64 tag,
+    repeat i32 pack,
+}// c")).
+Eval vm_compute in ("<<<M990>>>" ++ check (runes_of_ascii "root packet len {
+string_, @rightPad (	' '
+) string int @lengthOf( x_y_z ) , } root packet	u128{match u8x as charz
+{ 10
+: options1
+, 0123456789 :
+charz} ,	}
+")).
+Eval vm_compute in ("<<<M4065>>>" ++ check (runes_of_ascii "//
+options {
+    MetaDataX = """ ++ [28040; 24687]%N ++ runes_of_ascii """;
+    chars = f64
+    options1 = 42
+}
+
+root packet roots {
+    u8 metadata `tab	here`,
+    BodyLength @lengthOf(body),
+}")).
+Eval vm_compute in ("<<<M2061>>>" ++ check (runes_of_ascii "MetaData BodyLength
+{ int8 int8 Foo
+, string
+    MetaDataX , float zchar ,pack options1
+,asx string_, }
+packet u8x {Foo@lengthOf(charz )
+`" ++ [28040; 24687; 31867; 22411]%N ++ runes_of_ascii "`,  }
+")).
+Eval vm_compute in ("<<<M2131>>>" ++ check (runes_of_ascii "MetaData BodyLength
+{ int8 Foo
+, string
+    MetaDataX , float zchar ,pack options1
+,asx string_, , }
+packet u8x {Foo@lengthOf(charz )
+`" ++ [28040; 24687; 31867; 22411]%N ++ runes_of_ascii "`,  }
+")).
+Eval vm_compute in ("<<<M2202>>>" ++ check (runes_of_ascii "MetaData BodyLength
+{ int8 Foo
+, string
+    MetaDataX , float zchar ,pack options1
+,asx string_, }
+%packet u8x {Foo@lengthOf(charz )
+`" ++ [28040; 24687; 31867; 22411]%N ++ runes_of_ascii "`,  }
+")).
+Eval vm_compute in ("<<<M2142>>>" ++ check (runes_of_ascii "MetaData BodyLength
+{ int8 Foo
+, string
+    MetaDataX , float zchar ,pack options1
+,asx string_, }
+u8x packet {Foo@lengthOf(charz )
+`" ++ [28040; 24687; 31867; 22411]%N ++ runes_of_ascii "`,  }
+")).
+Eval vm_compute in ("<<<M2209>>>" ++ check (runes_of_ascii "MetaData BodyLength
+{ int8 Foo
+, string
+    MetaDataX , float zchar ,pack options1
+,asx string_, }
+packet u8x {" ++ [21517; 23383]%N ++ runes_of_ascii "@lengthOf(charz )
+`" ++ [28040; 24687; 31867; 22411]%N ++ runes_of_ascii "`,  }
+")).
+Eval vm_compute in ("<<<M2120>>>" ++ check (runes_of_ascii "MetaData BodyLength
+{ int8 Foo
+, string
+    MetaDataX , float zchar ,pack options1
+, string_, }
+packet u8x {Foo@lengthOf(charz )
+`" ++ [28040; 24687; 31867; 22411]%N ++ runes_of_ascii "`,  }
+")).
+Eval vm_compute in ("<<<M4348>>>" ++ check (runes_of_ascii "options {
+    Packet = 00;
+    u128 = true
+    Pad = '0'
+}
+
+MetaData a1 {
+    Z9_ Foo,
+    string tag,
+    msg_type chars,
+    i8 uint8x,
+}")).
+Eval vm_compute in ("<<<M2029>>>" ++ check (runes_of_ascii "
+packet leftPad {
+@leftPad( '0')
+u32
+i64_ `100% of %d` ,repeat// 50% %s
+i8 chars
+    ,
+} MetaData
+    f32a
+" ++ [0]%N ++ runes_of_ascii " { // packet A { u8 x, }
+}")).
+Eval vm_compute in ("<<<M2030>>>" ++ check (runes_of_ascii "
+packet leftPad {
+@leftPad( '0')
+u32
+i64_ `100% of %d` ,repeat// 50% %s
+i8 chars
+    ,
+} MetaData
+    f32a
+{ /~/ packet A { u8 x, }
+}")).
+Eval vm_compute in ("<<<M1953>>>" ++ check (runes_of_ascii "
+packet leftPad {
+@leftPad( )'0'
+u32
+i64_ `100% of %d` ,repeat// 50% %s
+i8 chars
+    ,
+} MetaData
+    f32a
+{ // packet A { u8 x, }
+}")).
+Eval vm_compute in ("<<<M2266>>>" ++ check (runes_of_ascii "options
+    {
+x_y_z// " ++ [27880; 37322]%N ++ runes_of_ascii "
+= 10 ; }
+packet body {
+    @calculatedFrom(
+// trailing space 
+// " ++ [27880; 37322]%N ++ runes_of_ascii "
+' '
+)	match T as Foo
+    {
+255 :T , }
+,}")).
+Eval vm_compute in ("<<<M2213>>>" ++ check (runes_of_ascii "uint16
+    {
+x_y_z// " ++ [27880; 37322]%N ++ runes_of_ascii "
+= 10 ; }
+packet body {
+    @calculatedFrom(
+// trailing space 
+// " ++ [27880; 37322]%N ++ runes_of_ascii "
+""1""
+)	match T as Foo
+    {
+255 :T , }
+,}")).
+Eval vm_compute in ("<<<M2349>>>" ++ check (runes_of_ascii "options
+    {
+x_y_z// " ++ [27880; 37322]%N ++ runes_of_ascii "
+= 10 ; }
+packet x" ++ [178]%N ++ runes_of_ascii " {
+    @calculatedFrom(
+// trailing space 
+// " ++ [27880; 37322]%N ++ runes_of_ascii "
+""1""
+)	match T as Foo
+    {
+255 :T , }
+,}")).
+Eval vm_compute in ("<<<M2423>>>" ++ check (runes_of_ascii "MetaData
+    calculatedFrom
+{ { zchar[  10 ]
+    As`tab	here`,
+    }// trailing space 
+options  { roots ='\x00' ; } packet A
+{ }
+")).
+Eval vm_compute in ("<<<M2424>>>" ++ check (runes_of_ascii "MetaData
+    calculatedFrom
+{ zchar[  10 ]
+    As`tab	here`,
+    }// trailing space 
+options  { roots ='\x00' ; } packet A
+} {
+")).
+Eval vm_compute in ("<<<M4439>>>" ++ check (runes_of_ascii "MetaData
+
+    trueish	{
+	int
+f32a
+
+    , }
+root
+packet  
+  // @lengthOf(
+	zchar
+
+{
+
+    trueish
+	`line1
+line2`
+	, 
+}")).
+Eval vm_compute in ("<<<M1848>>>" ++ check (runes_of_ascii "packet o {
+    roots `it's` `it's`
+// trailing space 
+//x
+, char[ 42
+    ]  A, // " ++ [27880; 37322]%N ++ runes_of_ascii "
+f64
+repeatCount
+    `crlf
+line`
+,}")).
+Eval vm_compute in ("<<<M1590>>>" ++ check (runes_of_ascii "// 50% %s
+packet	a1
+    { zchar[
+// a // b
+// 50% %s
+007]
+T `it's`
+    ,@rightPad
+    // a // b
+    (
+'\x00')
+    o")).
+Eval vm_compute in ("<<<M3700>>>" ++ check (runes_of_ascii "packet A {
+    u16 len @lengthOf(body) `a
+    b`,
+    u32 crc @calculatedFrom(""CRC32"") `a
+    b`,
+    string body,
+}")).
+Eval vm_compute in ("<<<M1854>>>" ++ check (runes_of_ascii "packet o {
+    roots `it's`
+// trailing space 
+//x
+char[ , 42
+    ]  A, // " ++ [27880; 37322]%N ++ runes_of_ascii "
+f64
+repeatCount
+    `crlf
+line`
+,}")).
+Eval vm_compute in ("<<<M4190>>>" ++ check (runes_of_ascii "
+
+  // " ++ [27880; 37322]%N ++ runes_of_ascii "
+  options{	x= // packet A { u8 x, }
+    ""abc"" 
+;  chars
+
+    =
+    false
+
+} options {
+uint8x 
+= 
+00}")).
+Eval vm_compute in ("<<<M126>>>" ++ check (runes_of_ascii "// 50% %s
+options {u8x
+=  ""\n"" u128 = '\x00' ; x = float32 ;	msg_type=
+    ""\n""
+    // " ++ [128512]%N ++ runes_of_ascii " emoji
+    ; crc = 7 }")).
+Eval vm_compute in ("<<<M4358>>>" ++ check (runes_of_ascii "options {pack 
+=
+""`tick`""	; pack
+
+    = 
+0123456789 
+i64_
+
+    = 	 // `tick` ""quote"" 'q'
+
+zchar[42
+	]}
+
+")).
+Eval vm_compute in ("<<<M1360>>>" ++ check (runes_of_ascii "packet o {
+    } root
+    packet falsey	{
+// " ++ [128512]%N ++ runes_of_ascii " emoji
+// 50% %s
+char[
+3] Z9_ `two words` ,  }options { }
+")).
+Eval vm_compute in ("<<<M876>>>" ++ check (runes_of_ascii "packet
+u8x { match u as zchar{
+    42  :
+body ,
+}
+,
+    int8 BodyLength `" ++ [28040; 24687; 31867; 22411]%N ++ runes_of_ascii "`, } // trailing space ")).
+Eval vm_compute in ("<<<M2144>>>" ++ check (runes_of_ascii "MetaData BodyLength
+{ int8 Foo
+, string
+    MetaDataX , float zchar ,pack options1
+,asx string_, }")).
+Eval vm_compute in ("<<<M3503>>>" ++ check (runes_of_ascii "packet
+    A 
+{
+
+    match 
+k as 
+n
+{
+	[  ""a"",	""bb"" ,
+
+    007
+    ] 
+: B
+	2
+:	C }
+, 
+}
+
+")).
+Eval vm_compute in ("<<<M4066>>>" ++ check (runes_of_ascii "  MetaData  // c
+	Foo
+	{ zchar[ 0
+
+]
+
+matchKey ,}options  {lengthOf=i32  u
+
+= 00
+	;
+
+    }
+")).
+Eval vm_compute in ("<<<M1448>>>" ++ check (runes_of_ascii "packet
+T
+{ match repeatCount as	calculatedFrom
+{ { [65535 ]	: As	,
+} ,}
+// trailing space 
+")).
+Eval vm_compute in ("<<<M1510>>>" ++ check (runes_of_ascii "packet~
+T
+{ match repeatCount as	calculatedFrom
+{ [65535 ]	: As	,
+} ,}
+// trailing space 
+")).
+Eval vm_compute in ("<<<M1484>>>" ++ check (runes_of_ascii "packet
+T
+{ match repeatCount as	calculatedFrom
+{ [65535 ]	: As	,
+, }}
+// trailing space 
+")).
+Eval vm_compute in ("<<<M2944>>>" ++ check (runes_of_ascii "packet A {
+  match k as n {
+    [""a"", ""bb"", 007, ""d"", ""e"", 66, ""g""] : B,
+    2 : C
+  },
+}")).
+Eval vm_compute in ("<<<M2129>>>" ++ check (runes_of_ascii "MetaData BodyLength
+{ int8 Foo
+, string
+    MetaDataX , float zchar ,pack options1
+,asx")).
+Eval vm_compute in ("<<<M3644>>>" ++ check (runes_of_ascii "root
+
+packet
+P { u16
+
+    a ,
+
+    u32	Sum
+	@calculatedFrom(
+	""CR\
+C32"") ,
+    } ")).
+Eval vm_compute in ("<<<M1713>>>" ++ check (runes_of_ascii "{options  lengthOf =//x
+i16;
+    BodyLength = 0 ; pack
+= false;
+    A = char[ 3 ] }")).
+Eval vm_compute in ("<<<M1735>>>" ++ check (runes_of_ascii "options{  lengthOf =//x
+i16
+    BodyLength = 0 ; pack
+= false;
+    A = char[ 3 ] }")).
+Eval vm_compute in ("<<<M1050>>>" ++ check (runes_of_ascii "root // a // b
+packet _x
+    { char[] float @lengthOf( Logon )`u8 x,` ,
+    } 	 ")).
+Eval vm_compute in ("<<<M320>>>" ++ check (runes_of_ascii "root	packet msg_type	{
+//
+// @lengthOf(
+}
+MetaData u{ // `tick` ""quote"" 'q'
+}
+")).
+Eval vm_compute in ("<<<M3260>>>" ++ check (runes_of_ascii "MetaData Foo { zchar[ 0 ] matchKey ,
+// c
+} options { lengthOf = i32 u = 00 ; }")).
+Eval vm_compute in ("<<<M3937>>>" ++ check (runes_of_ascii "packet A {
+    // a
+    @tag(1)
+    u8 x,// b
+    // c
+    @tag(2)
+    u8 y,
+}")).
+Eval vm_compute in ("<<<M3651>>>" ++ check (runes_of_ascii "  packet
+
+A  {match
+
+    k
+
+as	n
+    {1 :
+    B// c
+	,  // d
+  	} ,
+
+}
+")).
+Eval vm_compute in ("<<<M2884>>>" ++ check (runes_of_ascii "packet A {
+  match k as n {
+    [""a"", ""bb"", ""c c""] : B,
+    2 : C
+  },
+}")).
+Eval vm_compute in ("<<<M1789>>>" ++ check (runes_of_ascii "options{  lengthOf =//x
+i16;
+    BodyLength = 0 ; pack
+= false;
+    A")).
+Eval vm_compute in ("<<<M3203>>>" ++ check (runes_of_ascii "packet A { match k as n { [ // a
+ 1 // b
+ , // c
+ 2 ] // d
+ : B }, }")).
+Eval vm_compute in ("<<<M3214>>>" ++ check (runes_of_ascii "packet A {
+    match k as n {
+        1 : B,
+        // c
+    },
+}")).
+Eval vm_compute in ("<<<M1074>>>" ++ check (runes_of_ascii "// packet A { u8 x, }
+MetaData chars { stringy falsey  ,
+    }
+")).
+Eval vm_compute in ("<<<M1871>>>" ++ check (runes_of_ascii "packet o {
+    roots `it's`
+// trailing space 
+//x
+, char[ 42")).
+Eval vm_compute in ("<<<M3649>>>" ++ check (runes_of_ascii "MetaData float {
+    int16 options1,
+    int8 u128 `{ , }`,
+}")).
+Eval vm_compute in ("<<<M4160>>>" ++ check (runes_of_ascii "MetaData MetaDataX {
+    u64 f32a,
+    metadata lengthOf,
+}")).
+Eval vm_compute in ("<<<M297>>>" ++ check (runes_of_ascii "root // `tick` ""quote"" 'q'
+packet crc // " ++ [27880; 37322]%N ++ runes_of_ascii "
+{ }
+// " ++ [27880; 37322]%N ++ runes_of_ascii "
+")).
+Eval vm_compute in ("<<<M891>>>" ++ check (runes_of_ascii "MetaData Logon {
+    zchar[ 0123456789
+]
+metadata, }
+")).
+Eval vm_compute in ("<<<M2872>>>" ++ check (runes_of_ascii "packet A { Inner { match k as n { [1] : B, }, }, }")).
+Eval vm_compute in ("<<<M700>>>" ++ check (runes_of_ascii "MetaData x_y_z {
+char[
+0 ] calculatedFrom , }
+")).
+Eval vm_compute in ("<<<M2618>>>" ++ check (runes_of_ascii "packet A { match k as n { [1,""a"",2] : B, }, }")).
+Eval vm_compute in ("<<<M2748>>>" ++ check (runes_of_ascii "f32 @leftPad root i8 @lengthOf( i8 MetaData")).
+Eval vm_compute in ("<<<M3070>>>" ++ check (runes_of_ascii "MetaData M {
+    u8 x `%`,
+    T t `%`,
+}")).
+Eval vm_compute in ("<<<M1179>>>" ++ check (runes_of_ascii "MetaData pack{ i8i8
+    Pad `doc`
+,  }")).
+Eval vm_compute in ("<<<M2359>>>" ++ check (runes_of_ascii "MetaData
+char[] {Header //
+pack ,	} 	 ")).
+Eval vm_compute in ("<<<M3191>>>" ++ check (runes_of_ascii "MetaData M {
+}// c
+MetaData N {
+}// d")).
+Eval vm_compute in ("<<<M4003>>>" ++ check (runes_of_ascii "
+packet  Packet  {char[]
+	len , }
+")).
+Eval vm_compute in ("<<<M2380>>>" ++ check (runes_of_ascii "MetaData
+Foo {Header //
+pack ,	 	 ")).
+Eval vm_compute in ("<<<M382>>>" ++ check (runes_of_ascii "MetaData Foo
+// " ++ [27880; 37322]%N ++ runes_of_ascii "
+// 50% %s
+{ }")).
+Eval vm_compute in ("<<<M2242>>>" ++ check (runes_of_ascii "options
+    {
+x_y_z// " ++ [27880; 37322]%N ++ runes_of_ascii "
+= 10 ;")).
+Eval vm_compute in ("<<<M3109>>>" ++ check (runes_of_ascii "packet A {
+ u8 x `d" ++ [133]%N ++ runes_of_ascii "`, // c" ++ [133]%N ++ runes_of_ascii "
+}")).
+Eval vm_compute in ("<<<M4411>>>" ++ check (runes_of_ascii "
+
+  options
+{ // a // b
+	}
+")).
+Eval vm_compute in ("<<<M1351>>>" ++ check (runes_of_ascii "packet
+Logon
+{	} // a // b")).
+Eval vm_compute in ("<<<M2630>>>" ++ check (runes_of_ascii "packet A { @tag(x) u8 x, }")).
+Eval vm_compute in ("<<<M1810>>>" ++ check (runes_of_ascii "options{  lengthOf =//x
+")).
+Eval vm_compute in ("<<<M4236>>>" ++ check (runes_of_ascii "packet A {
+    x `d`,
+}")).
+Eval vm_compute in ("<<<M2795>>>" ++ check (runes_of_ascii "uint32 packet { f32 :")).
+Eval vm_compute in ("<<<M1401>>>" ++ check (runes_of_ascii "packet Header { }
+
+")).
+Eval vm_compute in ("<<<M2670>>>" ++ check (runes_of_ascii "options { a = 1, }")).
+Eval vm_compute in ("<<<M3155>>>" ++ check (runes_of_ascii "packet A {
+}// c 	")).
+Eval vm_compute in ("<<<M3100>>>" ++ check (runes_of_ascii "packet A {
+}// c" ++ [160]%N)).
+Eval vm_compute in ("<<<M2717>>>" ++ check (runes_of_ascii "int8 i16 char[ =")).
+Eval vm_compute in ("<<<M2753>>>" ++ check ([65533]%N ++ runes_of_ascii ">" ++ [65533]%N ++ runes_of_ascii "E" ++ [65533]%N ++ runes_of_ascii "vjh" ++ [24]%N ++ runes_of_ascii "GwlfT")).
+Eval vm_compute in ("<<<M329>>>" ++ check (runes_of_ascii "
+ // 50% %s")).
+Eval vm_compute in ("<<<M2781>>>" ++ check ([65533; 65533]%N ++ runes_of_ascii "rj" ++ [65533; 65533; 28; 65533; 994]%N)).
+Eval vm_compute in ("<<<M2511>>>" ++ check (runes_of_ascii "// a
+b")).
+Eval vm_compute in ("<<<M838>>>" ++ check (runes_of_ascii "
+//x
+")).
+Eval vm_compute in ("<<<M3116>>>" ++ check (runes_of_ascii "// c" ++ [8192]%N)).
+Eval vm_compute in ("<<<M2553>>>" ++ check (runes_of_ascii "a
+b")).
+Eval vm_compute in ("<<<M2552>>>" ++ check (runes_of_ascii "ab")).
+Eval vm_compute in ("<<<M2773>>>" ++ check ([65533]%N ++ runes_of_ascii "{")).
